@@ -1,7 +1,2478 @@
 /- Helper lemmas about the TypeBlocks model. -/
 import SFModel.Blocks
 import SFModel.SliceLemmas
+import SFModel.Props.C04
+
+set_option linter.unusedSimpArgs false
 
 namespace SF
+open TB
+variable {α : Type}
+
+namespace Block
+@[simp] theorem colsOf_length (b : Block α) : b.colsOf.length = b.width := by cases b <;> rfl
+end Block
+
+namespace TB
+
+theorem flatMap_length_eq_sum {β γ} (l : List β) (f : β → List γ) :
+    (l.flatMap f).length = (l.map (fun x => (f x).length)).sum := by
+  induction l with
+  | nil => rfl
+  | cons a l ih => simp [List.flatMap_cons, ih]
+
+theorem cols_length (tb : TB α) : tb.cols.length = tb.ncols := by
+  simp [cols, ncols, flatMap_length_eq_sum]
+
+theorem dtypes_length (tb : TB α) : tb.dtypes.length = tb.ncols := by
+  simp [dtypes, ncols, flatMap_length_eq_sum]
+
+theorem indexFrom_length (bi : Nat) (bs : List (Block α)) :
+    (indexFrom bi bs).length = (bs.map Block.width).sum := by
+  induction bs generalizing bi with
+  | nil => rfl
+  | cons b bs ih => simp [indexFrom, ih]
+
+theorem index_length (tb : TB α) : tb.index.length = tb.ncols := indexFrom_length 0 tb.blocks
+
+theorem fromBlocks_go_spec (bs : List (Block α)) (rc : Option Nat) (acc : List (Block α))
+    (rc' : Option Nat) (out : List (Block α))
+    (h : fromBlocks.go bs rc acc = .ok (rc', out)) :
+    out = acc.reverse ++ bs.filter (fun b => 0 < b.width) ∧
+    (∀ r, rc = some r → rc' = some r) ∧
+    (∀ r, rc' = some r → ∀ b ∈ bs.filter (fun b => 0 < b.width), b.RowsOk r) ∧
+    (rc' = none → bs.filter (fun b => 0 < b.width) = []) := by
+  induction bs generalizing rc acc with
+  | nil =>
+    simp only [fromBlocks.go, Except.ok.injEq, Prod.mk.injEq] at h
+    obtain ⟨rfl, rfl⟩ := h
+    simp
+  | cons b rest ih =>
+    match b with
+    | .d1 t c =>
+      have hw : (0 < (Block.d1 t c : Block α).width) = True := by simp [Block.width]
+      cases rc with
+      | some r =>
+        simp only [fromBlocks.go] at h
+        split at h
+        · cases h
+        · rename_i hlen
+          have hlen' : c.length = r := by simpa using hlen
+          obtain ⟨h1, h2, h3, h4⟩ := ih _ _ h
+          have hr := h2 r rfl
+          refine ⟨?_, ?_, ?_, ?_⟩
+          · simp [h1, List.filter_cons, Block.width]
+          · intro r' hr'; cases hr'; exact hr
+          · intro r' hr' b hb
+            rw [hr] at hr'; cases hr'
+            simp only [List.filter_cons, Block.width, Nat.lt_one_iff, Nat.zero_lt_one, decide_true, if_true,
+              List.mem_cons] at hb
+            rcases hb with rfl | hb
+            · intro x hx; simp [Block.colsOf] at hx; subst hx; exact hlen'
+            · exact h3 r hr b hb
+          · intro hn; rw [hr] at hn; cases hn
+      | none =>
+        simp only [fromBlocks.go] at h
+        obtain ⟨h1, h2, h3, h4⟩ := ih _ _ h
+        have hr := h2 c.length rfl
+        refine ⟨?_, ?_, ?_, ?_⟩
+        · simp [h1, List.filter_cons, Block.width]
+        · intro r' hr'; cases hr'
+        · intro r' hr' b hb
+          rw [hr] at hr'; cases hr'
+          simp only [List.filter_cons, Block.width, Nat.zero_lt_one, decide_true, if_true,
+            List.mem_cons] at hb
+          rcases hb with rfl | hb
+          · intro x hx; simp [Block.colsOf] at hx; subst hx; rfl
+          · exact h3 _ hr b hb
+        · intro hn; rw [hr] at hn; cases hn
+    | .d2 t [] =>
+      simp only [fromBlocks.go] at h
+      obtain ⟨h1, h2, h3, h4⟩ := ih _ _ h
+      refine ⟨?_, h2, ?_, ?_⟩
+      · simp [h1, List.filter_cons, Block.width]
+      · simpa [List.filter_cons, Block.width] using h3
+      · simpa [List.filter_cons, Block.width] using h4
+    | .d2 t (c :: cs) =>
+      simp only [fromBlocks.go] at h
+      split at h
+      · cases h
+      · rename_i hall
+        have hall' : ∀ x ∈ cs, x.length = c.length := by simpa using hall
+        cases rc with
+        | some r =>
+          simp only at h
+          split at h
+          · cases h
+          · rename_i hlen
+            have hlen' : c.length = r := by simpa using hlen
+            obtain ⟨h1, h2, h3, h4⟩ := ih _ _ h
+            have hr := h2 r rfl
+            refine ⟨?_, ?_, ?_, ?_⟩
+            · simp [h1, List.filter_cons, Block.width]
+            · intro r' hr'; cases hr'; exact hr
+            · intro r' hr' b hb
+              rw [hr] at hr'; cases hr'
+              simp only [List.filter_cons, Block.width, List.length_cons, Nat.zero_lt_succ, decide_true, if_true,
+                List.mem_cons] at hb
+              rcases hb with rfl | hb
+              · intro x hx
+                simp only [Block.colsOf, List.mem_cons] at hx
+                rcases hx with rfl | hx
+                · exact hlen'
+                · rw [hall' x hx]; exact hlen'
+              · exact h3 r hr b hb
+            · intro hn; rw [hr] at hn; cases hn
+        | none =>
+          simp only at h
+          obtain ⟨h1, h2, h3, h4⟩ := ih _ _ h
+          have hr := h2 c.length rfl
+          refine ⟨?_, ?_, ?_, ?_⟩
+          · simp [h1, List.filter_cons, Block.width]
+          · intro r' hr'; cases hr'
+          · intro r' hr' b hb
+            rw [hr] at hr'; cases hr'
+            simp only [List.filter_cons, Block.width, List.length_cons, Nat.zero_lt_succ, decide_true, if_true,
+              List.mem_cons] at hb
+            rcases hb with rfl | hb
+            · intro x hx
+              simp only [Block.colsOf, List.mem_cons] at hx
+              rcases hx with rfl | hx
+              · rfl
+              · exact hall' x hx
+            · exact h3 _ hr b hb
+          · intro hn; rw [hr] at hn; cases hn
+
+theorem indexFrom_spec (bi : Nat) (bs : List (Block α)) (j i c : Nat)
+    (h : (indexFrom bi bs)[j]? = some (i, c)) :
+    ∃ blk, bi ≤ i ∧ bs[i - bi]? = some blk ∧ c < blk.width ∧
+      blk.colsOf[c]? = (bs.flatMap Block.colsOf)[j]? ∧
+      (bs.flatMap (fun b => List.replicate b.width b.dt))[j]? = some blk.dt := by
+  induction bs generalizing bi j with
+  | nil => simp [indexFrom] at h
+  | cons b rest ih =>
+    simp only [indexFrom] at h
+    by_cases hj : j < b.width
+    · rw [List.getElem?_append_left (by simpa using hj)] at h
+      simp only [List.getElem?_map, List.getElem?_range hj, Option.map_some, Option.some.injEq,
+        Prod.mk.injEq] at h
+      obtain ⟨rfl, rfl⟩ := h
+      refine ⟨b, Nat.le_refl _, by simp, hj, ?_, ?_⟩
+      · simp only [List.flatMap_cons]
+        rw [List.getElem?_append_left (by simpa using hj)]
+      · simp only [List.flatMap_cons]
+        rw [List.getElem?_append_left (by simpa using hj)]
+        simp [hj]
+    · have hj' : b.width ≤ j := by omega
+      rw [List.getElem?_append_right (by simpa using hj')] at h
+      simp only [List.length_map, List.length_range] at h
+      obtain ⟨blk, h1, h2, h3, h4, h5⟩ := ih _ _ h
+      refine ⟨blk, by omega, ?_, h3, ?_, ?_⟩
+      · have : i - bi = (i - (bi + 1)) + 1 := by omega
+        rw [this, List.getElem?_cons_succ]; exact h2
+      · simp only [List.flatMap_cons]
+        rw [List.getElem?_append_right (by simpa using hj')]
+        simpa using h4
+      · simp only [List.flatMap_cons]
+        rw [List.getElem?_append_right (by simpa using hj')]
+        simpa using h5
+
+theorem flatMap_filter_width (bs : List (Block α)) :
+    (bs.filter (fun b => 0 < b.width)).flatMap Block.colsOf = bs.flatMap Block.colsOf ∧
+    (bs.filter (fun b => 0 < b.width)).flatMap (fun b => List.replicate b.width b.dt)
+      = bs.flatMap (fun b => List.replicate b.width b.dt) := by
+  induction bs with
+  | nil => simp
+  | cons b bs ih =>
+    by_cases hw : 0 < b.width
+    · simp [List.filter_cons, hw, ih.1, ih.2]
+    · have hw0 : b.width = 0 := by omega
+      have hc : b.colsOf = [] := by
+        apply List.eq_nil_of_length_eq_zero; simp [hw0]
+      simp [List.filter_cons, hw, ih.1, ih.2, hw0, hc]
+
+end TB
+/-! ### `_indices_to_contiguous_pairs` -/
+
+/-- a ±1 run: ascending `a, a+1, …` or descending `…, z+1, z` (non-empty) -/
+def MonoRun (run : List Nat) : Prop :=
+  (∃ a len, run = List.range' a (len + 1)) ∨ (∃ z len, run = (List.range' z (len + 1)).reverse)
+
+theorem MonoRun.ne_nil {run : List Nat} (h : MonoRun run) : run ≠ [] := by
+  rcases h with ⟨a, len, rfl⟩ | ⟨z, len, rfl⟩ <;> simp [List.range'_succ]
+
+theorem MonoRun.singleton (c : Nat) : MonoRun [c] := Or.inl ⟨c, 0, rfl⟩
+
+theorem MonoRun.concat {run : List Nat} {lc c : Nat} (h : MonoRun run)
+    (hl : run.getLast? = some lc) (hc : c = lc + 1 ∨ lc = c + 1) (hn : c ∉ run) :
+    MonoRun (run ++ [c]) := by
+  rcases h with ⟨a, len, rfl⟩ | ⟨z, len, rfl⟩
+  · simp only [List.getLast?_range', Nat.add_one_ne_zero, if_false, Option.some.injEq] at hl
+    rcases hc with hc | hc
+    · left; refine ⟨a, len + 1, ?_⟩
+      rw [List.range'_1_concat (n := len + 1)]
+      congr 2; omega
+    · cases len with
+      | zero =>
+        right; refine ⟨c, 1, ?_⟩
+        have : a = c + 1 := by omega
+        subst this
+        simp [List.range'_succ]
+      | succ len =>
+        exfalso; apply hn
+        rw [List.mem_range'_1]; omega
+  · simp only [List.getLast?_reverse, List.head?_range', Nat.add_one_ne_zero, if_false,
+      Option.some.injEq] at hl
+    subst hl
+    rcases hc with hc | hc
+    · cases len with
+      | zero =>
+        left; refine ⟨z, 1, ?_⟩
+        subst hc
+        simp [List.range'_succ]
+      | succ len =>
+        exfalso; apply hn
+        rw [List.mem_reverse, List.mem_range'_1]; omega
+    · right; refine ⟨c, len + 1, ?_⟩
+      rw [List.range'_succ (n := len + 1), List.reverse_cons, hc]
+
+theorem colsToSlice_two (l : List Int) (a z : Int) (ha : l.head? = some a) (hz : l.getLast? = some z)
+    (hlen : 2 ≤ l.length) :
+    colsToSlice l = some (if z > a then ⟨some a, some (z + 1), none⟩
+      else if z = 0 then ⟨some a, none, some (-1)⟩ else ⟨some a, some (z - 1), some (-1)⟩) := by
+  match l, hlen with
+  | a' :: b :: rest, _ =>
+    simp only [List.head?_cons, Option.some.injEq] at ha
+    subst ha
+    have hl : (a' :: b :: rest).getLast? = some ((b :: rest).getLast (by simp)) := by
+      simp [List.getLast?_eq_some_getLast, List.getLast_cons]
+    rw [hl] at hz
+    simp only [Option.some.injEq] at hz
+    simp only [colsToSlice, hz]
+    split
+    · rfl
+    · split <;> rfl
+
+theorem colsToSlice_asc (a len : Nat) :
+    colsToSlice ((List.range' a (len + 1)).map Int.ofNat) = some ⟨some a, some ((a : Int) + len + 1), none⟩ := by
+  cases len with
+  | zero => simp [colsToSlice]
+  | succ len =>
+    rw [colsToSlice_two _ a ((a + len + 1 : Nat) : Int)]
+    · have : ((a + len + 1 : Nat) : Int) > (a : Int) := by omega
+      rw [if_pos this]
+      simp only [Int.natCast_add, Int.natCast_one, Int.add_assoc]
+    · simp [List.head?_map, List.head?_range']
+    · simp [List.getLast?_map, List.getLast?_range']
+      omega
+    · simp
+
+theorem colsToSlice_desc (z len : Nat) :
+    colsToSlice ((List.range' z (len + 2)).reverse.map Int.ofNat)
+      = some (if z = 0 then ⟨some ((len : Int) + 1), none, some (-1)⟩
+              else ⟨some ((z : Int) + len + 1), some ((z : Int) - 1), some (-1)⟩) := by
+  rw [colsToSlice_two _ ((z + len + 1 : Nat) : Int) (z : Int)]
+  · have : ¬ ((z : Int) > ((z + len + 1 : Nat) : Int)) := by omega
+    rw [if_neg this]
+    by_cases hz : z = 0
+    · subst hz; simp
+    · have : ¬ ((z : Int) = 0) := by omega
+      rw [if_neg this, if_neg hz]
+      simp only [Int.natCast_add, Int.natCast_one]
+  · simp [List.head?_map, List.head?_reverse, List.getLast?_range']
+    omega
+  · simp [List.getLast?_map, List.getLast?_reverse, List.head?_range']
+  · simp
+
+theorem positions_asc (a len w : Nat) (h : a + len < w) :
+    PySlice.positions ⟨some (a : Int), some ((a : Int) + len + 1), none⟩ w = .ok (List.range' a (len + 1)) := by
+  have hi : PySlice.indices ⟨some (a : Int), some ((a : Int) + len + 1), none⟩ w
+      = .ok ((a : Int), (a : Int) + len + 1, 1) := by
+    simp only [PySlice.indices, Option.getD_none]
+    have h1 : ¬ ((a : Int) < 0) := by omega
+    have h2 : ¬ ((a : Int) + len + 1 < 0) := by omega
+    simp only [Int.one_ne_zero, if_false, show ¬ ((1 : Int) < 0) by omega, h1, h2]
+    congr 2
+    · omega
+    · congr 1; omega
+  have hlen : rangeLen (a : Int) ((a : Int) + len + 1) 1 = len + 1 := by
+    unfold rangeLen
+    rw [if_pos (by omega), if_pos (by omega)]
+    simp only [Int.ediv_one]
+    omega
+  simp only [PySlice.positions, hi, rangeList, hlen]
+  congr 1
+  apply List.ext_getElem
+  · simp
+  · intro k h1 h2
+    simp only [List.getElem_map, List.getElem_range, List.getElem_range']
+    omega
+
+theorem positions_desc (z len w : Nat) (h : z + len + 1 < w) :
+    PySlice.positions (if z = 0 then ⟨some ((len : Int) + 1), none, some (-1)⟩
+              else ⟨some ((z : Int) + len + 1), some ((z : Int) - 1), some (-1)⟩) w
+      = .ok (List.range' z (len + 2)).reverse := by
+  have hi : PySlice.indices (if z = 0 then ⟨some ((len : Int) + 1), none, some (-1)⟩
+              else ⟨some ((z : Int) + len + 1), some ((z : Int) - 1), some (-1)⟩) w
+      = .ok ((z : Int) + len + 1, (z : Int) - 1, -1) := by
+    by_cases hz : z = 0
+    · subst hz
+      simp only [if_true, PySlice.indices, Option.getD_some]
+      have h1 : ¬ ((len : Int) + 1 < 0) := by omega
+      simp only [show ¬ ((-1 : Int) = 0) by omega, if_false, show ((-1 : Int) < 0) by omega, if_true, h1]
+      congr 2
+      · omega
+    · simp only [if_neg hz, PySlice.indices, Option.getD_some]
+      have h1 : ¬ ((z : Int) + len + 1 < 0) := by omega
+      have h2 : ¬ ((z : Int) - 1 < 0) := by omega
+      simp only [show ¬ ((-1 : Int) = 0) by omega, if_false, show ((-1 : Int) < 0) by omega, if_true, h1, h2]
+      congr 2
+      · omega
+      · congr 1; omega
+  have hlen : rangeLen ((z : Int) + len + 1) ((z : Int) - 1) (-1) = len + 2 := by
+    unfold rangeLen
+    rw [if_neg (by omega), if_pos (by omega), if_pos (by omega)]
+    simp only [Int.neg_neg, Int.ediv_one]
+    omega
+  simp only [PySlice.positions, hi, rangeList, hlen]
+  congr 1
+  apply List.ext_getElem
+  · simp
+  · intro k h1 h2
+    simp only [List.getElem_map, List.getElem_range, List.getElem_reverse, List.getElem_range',
+      List.length_range']
+    simp only [List.length_map, List.length_range] at h1
+    omega
+
+theorem monoRun_positions {run : List Nat} {w : Nat} {s : PySlice} (h : MonoRun run)
+    (hw : ∀ c ∈ run, c < w) (hs : colsToSlice (run.map Int.ofNat) = some s) :
+    s.positions w = .ok run := by
+  rcases h with ⟨a, len, rfl⟩ | ⟨z, len, rfl⟩
+  · rw [colsToSlice_asc] at hs
+    simp only [Option.some.injEq] at hs; subst hs
+    apply positions_asc
+    have := hw (a + len) (by rw [List.mem_range'_1]; omega)
+    exact this
+  · cases len with
+    | zero =>
+      have : (List.range' z (0 + 1)).reverse = List.range' z (0 + 1) := by simp [List.range'_succ]
+      rw [this] at hs ⊢
+      rw [colsToSlice_asc] at hs
+      simp only [Option.some.injEq] at hs; subst hs
+      apply positions_asc
+      exact hw z (by simp [List.range'_succ])
+    | succ len =>
+      rw [colsToSlice_desc] at hs
+      simp only [Option.some.injEq] at hs; subst hs
+      apply positions_desc
+      have := hw (z + len + 1) (by rw [List.mem_reverse, List.mem_range'_1]; omega)
+      exact this
+
+/-- one emitted `(block, slice)` pair together with the run of columns it stands for -/
+structure Seg where
+  blk : Nat
+  run : List Nat
+  sl : PySlice
+
+def Seg.pair (s : Seg) : Nat × BSel := (s.blk, .sl s.sl)
+def Seg.cells (s : Seg) : List (Nat × Nat) := s.run.map (fun c => (s.blk, c))
+def Seg.Good (s : Seg) : Prop := MonoRun s.run ∧ colsToSlice (s.run.map Int.ofNat) = some s.sl
+
+/-- the loop only breaks a run where the next column is not adjacent in the same block -/
+def Seg.Breaks (s1 s2 : Seg) : Prop :=
+  ¬ (s1.blk = s2.blk ∧ ∃ l f, s1.run.getLast? = some l ∧ s2.run.head? = some f ∧ (f = l + 1 ∨ l = f + 1))
+
+def ChainBreaks : List Seg → Prop
+  | [] => True
+  | [_] => True
+  | a :: b :: rest => a.Breaks b ∧ ChainBreaks (b :: rest)
+
+theorem colsToSlice_isSome {l : List Int} (h : l ≠ []) : ∃ s, colsToSlice l = some s := by
+  match l, h with
+  | [a], _ => exact ⟨_, rfl⟩
+  | a :: b :: rest, _ =>
+    simp only [colsToSlice]
+    split
+    · exact ⟨_, rfl⟩
+    · split <;> exact ⟨_, rfl⟩
+
+theorem contiguousPairs_struct_some (rest : List (Nat × Nat)) (lb lc : Nat) (bundle : List Nat)
+    (ps : List (Nat × BSel))
+    (h : contiguousPairs rest (some (lb, lc)) bundle = some ps)
+    (hm : MonoRun bundle) (hl : bundle.getLast? = some lc)
+    (hnd : (bundle.map (fun c => (lb, c)) ++ rest).Nodup) :
+    ∃ seg segs, ps = (seg :: segs).map Seg.pair ∧ seg.blk = lb ∧ bundle <+: seg.run ∧
+      (seg :: segs).flatMap Seg.cells = bundle.map (fun c => (lb, c)) ++ rest ∧
+      (∀ s ∈ seg :: segs, s.Good) ∧ ChainBreaks (seg :: segs) := by
+  induction rest generalizing lb lc bundle ps with
+  | nil =>
+    have hne := hm.ne_nil
+    have hemp : bundle.isEmpty = false := by cases bundle <;> simp_all
+    simp only [contiguousPairs, hemp, Bool.false_eq_true, if_false, Option.map_eq_some_iff] at h
+    obtain ⟨s, hs, rfl⟩ := h
+    refine ⟨⟨lb, bundle, s⟩, [], rfl, rfl, List.prefix_refl _, by simp [Seg.cells], ?_, trivial⟩
+    intro x hx
+    simp only [List.mem_singleton] at hx; subst hx
+    exact ⟨hm, hs⟩
+  | cons p rest ih =>
+    obtain ⟨b, c⟩ := p
+    simp only [contiguousPairs] at h
+    split at h
+    · rename_i hcond
+      obtain ⟨hb, hc⟩ := hcond
+      subst hb
+      have hnd' : ((bundle ++ [c]).map (fun c => (lb, c)) ++ rest).Nodup := by
+        simpa using hnd
+      have hcn : c ∉ bundle := by
+        intro hcb
+        rw [List.nodup_append] at hnd
+        exact hnd.2.2 (lb, c) (List.mem_map.mpr ⟨c, hcb, rfl⟩) (lb, c) (by simp) rfl
+      obtain ⟨seg, segs, h1, h2, h3, h4, h5, h6⟩ :=
+        ih lb c (bundle ++ [c]) ps h (hm.concat hl hc hcn) (by simp) hnd'
+      refine ⟨seg, segs, h1, h2, ?_, ?_, h5, h6⟩
+      · exact List.IsPrefix.trans (List.prefix_append _ _) h3
+      · rw [h4]; simp
+    · rename_i hcond
+      obtain ⟨s, hs⟩ := colsToSlice_isSome (l := bundle.map Int.ofNat) (by simpa using hm.ne_nil)
+      rw [hs] at h
+      cases htl : contiguousPairs rest (some (b, c)) [c] with
+      | none => rw [htl] at h; simp at h
+      | some tl =>
+        rw [htl] at h
+        simp only [Option.some.injEq] at h
+        subst h
+        have hnd' : (([c] : List Nat).map (fun c => (b, c)) ++ rest).Nodup := by
+          simp only [List.map_cons, List.map_nil, List.singleton_append]
+          exact List.Nodup.sublist (List.sublist_append_right _ _) hnd
+        obtain ⟨seg, segs, h1, h2, h3, h4, h5, h6⟩ :=
+          ih b c [c] tl htl (MonoRun.singleton c) rfl hnd'
+        refine ⟨⟨lb, bundle, s⟩, seg :: segs, ?_, rfl, List.prefix_refl _, ?_, ?_, ?_⟩
+        · rw [h1]; rfl
+        · rw [List.flatMap_cons, h4]; simp [Seg.cells]
+        · intro x hx
+          rw [List.mem_cons] at hx
+          rcases hx with rfl | hx
+          · exact ⟨hm, hs⟩
+          · exact h5 x hx
+        · refine ⟨?_, h6⟩
+          intro ⟨hbb, l, f, hl', hf, hadj⟩
+          simp only at hbb hl'
+          rw [hl] at hl'; cases hl'
+          obtain ⟨t, ht⟩ := h3
+          rw [← ht] at hf
+          simp only [List.singleton_append, List.head?_cons, Option.some.injEq] at hf
+          subst hf
+          exact hcond ⟨by rw [hbb, h2], hadj⟩
+
+theorem contiguousPairs_struct (l : List (Nat × Nat)) (bundle : List Nat) (ps : List (Nat × BSel))
+    (h : contiguousPairs l none bundle = some ps) (hnd : l.Nodup) :
+    ∃ segs, ps = segs.map Seg.pair ∧ segs.flatMap Seg.cells = l ∧
+      (∀ s ∈ segs, s.Good) ∧ ChainBreaks segs := by
+  cases l with
+  | nil =>
+    simp only [contiguousPairs, Option.some.injEq] at h
+    subst h
+    exact ⟨[], rfl, rfl, by simp, trivial⟩
+  | cons p rest =>
+    obtain ⟨b, c⟩ := p
+    simp only [contiguousPairs] at h
+    obtain ⟨seg, segs, h1, _, _, h4, h5, h6⟩ :=
+      contiguousPairs_struct_some rest b c [c] ps h (MonoRun.singleton c) rfl (by simpa using hnd)
+    exact ⟨seg :: segs, h1, by rw [h4]; simp, h5, h6⟩
+
+theorem TB.mem_index {tb : TB α} {p : Nat × Nat} (h : p ∈ tb.index) :
+    ∃ blk, tb.blocks[p.1]? = some blk ∧ p.2 < blk.width := by
+  obtain ⟨j, hj⟩ := List.mem_iff_getElem?.mp h
+  obtain ⟨blk, _, h2, h3, _, _⟩ := indexFrom_spec 0 tb.blocks j p.1 p.2 hj
+  exact ⟨blk, h2, h3⟩
+
+theorem contiguousPairs_total_some (rest : List (Nat × Nat)) (lb lc : Nat) (bundle : List Nat)
+    (hne : bundle ≠ []) : ∃ ps, contiguousPairs rest (some (lb, lc)) bundle = some ps := by
+  induction rest generalizing lb lc bundle with
+  | nil =>
+    have hemp : bundle.isEmpty = false := by cases bundle <;> simp_all
+    obtain ⟨s, hs⟩ := colsToSlice_isSome (l := bundle.map Int.ofNat) (by simpa using hne)
+    simp [contiguousPairs, hemp, hs]
+  | cons p rest ih =>
+    obtain ⟨b, c⟩ := p
+    simp only [contiguousPairs]
+    split
+    · exact ih _ _ _ (by simp)
+    · obtain ⟨s, hs⟩ := colsToSlice_isSome (l := bundle.map Int.ofNat) (by simpa using hne)
+      obtain ⟨tl, htl⟩ := ih b c [c] (by simp)
+      rw [hs, htl]
+      exact ⟨_, rfl⟩
+
+theorem mapM_map_except_ok {β γ δ ε} (l : List β) (hf : β → γ) (f : γ → Except ε δ) (g : β → δ)
+    (h : ∀ x ∈ l, f (hf x) = .ok (g x)) : (l.map hf).mapM f = .ok (l.map g) := by
+  induction l with
+  | nil => rfl
+  | cons a l ih =>
+    simp only [List.map_cons, List.mapM_cons, h a List.mem_cons_self,
+      ih (fun x hx => h x (List.mem_cons_of_mem _ hx))]
+    rfl
+
+/-! ### `_slice_blocks` / `_extract` -/
+
+theorem pick_eq_map_getD {β} (l : List β) (ps : List Nat) (d : β) (h : ∀ p ∈ ps, p < l.length) :
+    pick l ps = ps.map (fun p => l.getD p d) := by
+  unfold pick
+  induction ps with
+  | nil => rfl
+  | cons p ps ih =>
+    have hp : p < l.length := h p (by simp)
+    simp only [List.filterMap_cons, List.getElem?_eq_getElem hp, List.map_cons, List.getD_eq_getElem?_getD,
+      Option.getD_some]
+    rw [ih (fun q hq => h q (by simp [hq]))]
+    simp
+
+theorem pick_length {β} (l : List β) (ps : List Nat) (h : ∀ p ∈ ps, p < l.length) :
+    (pick l ps).length = ps.length := by
+  cases l with
+  | nil =>
+    cases ps with
+    | nil => rfl
+    | cons p ps => have := h p (by simp); simp at this
+  | cons d l => rw [pick_eq_map_getD _ _ d h]; simp
+
+theorem pick_range {β} (l : List β) : pick l (List.range l.length) = l := by
+  cases l with
+  | nil => rfl
+  | cons d l' =>
+    rw [pick_eq_map_getD _ _ d (by intro p hp; simpa using hp)]
+    apply List.ext_getElem
+    · simp
+    · intro i h1 h2
+      simp only [List.getElem_map, List.getElem_range, List.getD_eq_getElem?_getD,
+        List.getElem?_eq_getElem h2, Option.getD_some]
+
+/-- row selection of one column (`none` = all rows) -/
+def rowSel (rps : Option (List Nat)) (c : List α) : List α :=
+  match rps with | none => c | some ps => pick c ps
+
+/-- a per-block selection together with the block columns it addresses -/
+structure Tgt where
+  blk : Nat
+  sel : BSel
+  run : List Nat
+
+def Tgt.pair (t : Tgt) : Nat × BSel := (t.blk, t.sel)
+def Tgt.cells (t : Tgt) : List (Nat × Nat) := t.run.map (fun c => (t.blk, c))
+def Tgt.Ok (tb : TB α) (t : Tgt) : Prop :=
+  ∃ b, tb.blocks[t.blk]? = some b ∧ t.sel.positions b.width = .ok t.run ∧ (b.is1d = true → t.run = [0])
+
+def Seg.toTgt (s : Seg) : Tgt := ⟨s.blk, .sl s.sl, s.run⟩
+
+/-- the result of `sliceBlock` when the selection addresses `run` -/
+def sliceBlockD (b : Block α) (rps : Option (List Nat)) (sel : BSel) (run : List Nat) : Block α :=
+  match b with
+  | .d1 t c => .d1 t (rowSel rps c)
+  | .d2 t cs =>
+    match sel with
+    | .col c => .d1 t (rowSel rps (cs.getD c []))
+    | .sl _ => .d2 t ((pick cs run).map (rowSel rps))
+
+theorem bsel_positions_lt {sel : BSel} {w : Nat} {run : List Nat} (h : sel.positions w = .ok run) :
+    ∀ c ∈ run, c < w := by
+  cases sel with
+  | col c =>
+    simp only [BSel.positions] at h
+    by_cases hc : c < w
+    · rw [if_pos hc] at h
+      simp only [Except.ok.injEq] at h; subst h; simpa
+    · rw [if_neg hc] at h; cases h
+  | sl s => exact C04.slice_positions_in_range h
+
+theorem sliceBlock_ok (b : Block α) (rps : Option (List Nat)) (sel : BSel) (run : List Nat)
+    (h : sel.positions b.width = .ok run) :
+    sliceBlock b rps sel = .ok (sliceBlockD b rps sel run) := by
+  cases b with
+  | d1 t c => rfl
+  | d2 t cs =>
+    cases sel with
+    | col c =>
+      replace h : (BSel.col c).positions cs.length = .ok run := h
+      simp only [BSel.positions] at h
+      by_cases hc : c < cs.length
+      · rw [if_pos hc] at h
+        simp [sliceBlock, sliceBlockD, List.getElem?_eq_getElem hc, rowSel]
+        cases rps <;> rfl
+      · rw [if_neg hc] at h; cases h
+    | sl s =>
+      replace h : s.positions cs.length = .ok run := h
+      simp only [sliceBlock, sliceBlockD, h]
+      rfl
+
+theorem sliceBlockD_spec (b : Block α) (rps : Option (List Nat)) (sel : BSel) (run : List Nat)
+    (h : sel.positions b.width = .ok run) (h1 : b.is1d = true → run = [0]) :
+    (sliceBlockD b rps sel run).colsOf = run.map (fun c => rowSel rps (b.colsOf.getD c [])) ∧
+    (sliceBlockD b rps sel run).dt = b.dt ∧ (sliceBlockD b rps sel run).width = run.length := by
+  have hlt := bsel_positions_lt h
+  cases b with
+  | d1 t c =>
+    have := h1 rfl; subst this
+    simp [sliceBlockD, Block.colsOf, Block.dt, Block.width]
+  | d2 t cs =>
+    cases sel with
+    | col c =>
+      simp only [BSel.positions] at h
+      by_cases hc : c < (Block.d2 t cs).width
+      · rw [if_pos hc] at h
+        simp only [Except.ok.injEq] at h; subst h
+        simp [sliceBlockD, Block.colsOf, Block.dt, Block.width]
+      · rw [if_neg hc] at h; cases h
+    | sl s =>
+      simp only [Block.width] at hlt
+      simp [sliceBlockD, Block.colsOf, Block.dt, Block.width, pick_eq_map_getD cs run [] hlt]
+
+/-- the block produced for one target -/
+def slicedTgt (tb : TB α) (rps : Option (List Nat)) (t : Tgt) : Block α :=
+  match tb.blocks[t.blk]? with
+  | some b => sliceBlockD b rps t.sel t.run
+  | none => default
+
+theorem sliceBlocks_tgts (tb : TB α) (rps : Option (List Nat)) (tgts : List Tgt)
+    (h : ∀ t ∈ tgts, t.Ok tb) :
+    sliceBlocks tb rps (tgts.map Tgt.pair) = .ok (tgts.map (slicedTgt tb rps)) := by
+  unfold sliceBlocks
+  apply mapM_map_except_ok
+  intro t ht
+  obtain ⟨b, hb, hpos, _⟩ := h t ht
+  simp only [Tgt.pair, hb, slicedTgt]
+  exact sliceBlock_ok b rps t.sel t.run hpos
+
+/-- the column a directory entry names -/
+def TB.colAt (tb : TB α) (p : Nat × Nat) : List α :=
+  match tb.blocks[p.1]? with
+  | some b => b.colsOf.getD p.2 []
+  | none => []
+
+def TB.dtAt (tb : TB α) (i : Nat) : DT :=
+  match tb.blocks[i]? with
+  | some b => b.dt
+  | none => ""
+
+theorem TB.index_colAt (tb : TB α) (j : Nat) (p : Nat × Nat) (h : tb.index[j]? = some p) :
+    tb.cols[j]? = some (tb.colAt p) ∧ tb.dtypes[j]? = some (tb.dtAt p.1) := by
+  obtain ⟨blk, _, h2, h3, h4, h5⟩ := indexFrom_spec 0 tb.blocks j p.1 p.2 h
+  simp only [Nat.sub_zero] at h2
+  refine ⟨?_, ?_⟩
+  · show (tb.blocks.flatMap Block.colsOf)[j]? = _
+    rw [← h4, TB.colAt, h2]
+    simp [List.getD_eq_getElem?_getD, List.getElem?_eq_getElem (show p.2 < blk.colsOf.length by simpa using h3)]
+  · show (tb.blocks.flatMap _)[j]? = _
+    rw [h5, TB.dtAt, h2]
+
+theorem slicedTgt_spec (tb : TB α) (rps : Option (List Nat)) (t : Tgt) (h : t.Ok tb) :
+    (slicedTgt tb rps t).colsOf = t.cells.map (fun p => rowSel rps (tb.colAt p)) ∧
+    List.replicate (slicedTgt tb rps t).width (slicedTgt tb rps t).dt = t.cells.map (fun p => tb.dtAt p.1) := by
+  obtain ⟨b, hb, hpos, h1⟩ := h
+  obtain ⟨hc, hd, hw⟩ := sliceBlockD_spec b rps t.sel t.run hpos h1
+  simp only [slicedTgt, hb, hc, hd, hw, Tgt.cells, List.map_map, TB.colAt, TB.dtAt]
+  refine ⟨?_, ?_⟩
+  · apply List.map_congr_left
+    intro c _
+    simp [hb]
+  · apply List.ext_getElem
+    · simp
+    · intro i h1 h2; simp [hb]
+
+theorem TB.fromBlocks_go_ok (bs : List (Block α)) (n : Nat) (rc : Option Nat) (acc : List (Block α))
+    (hrc : rc = none ∨ rc = some n) (h : ∀ b ∈ bs, b.RowsOk n) :
+    ∃ rc' out, fromBlocks.go bs rc acc = .ok (rc', out) := by
+  induction bs generalizing rc acc with
+  | nil => exact ⟨_, _, rfl⟩
+  | cons b rest ih =>
+    have hrest : ∀ b ∈ rest, b.RowsOk n := fun x hx => h x (List.mem_cons_of_mem _ hx)
+    have hb := h b List.mem_cons_self
+    match b with
+    | .d1 t c =>
+      have hc : c.length = n := hb c (by simp [Block.colsOf])
+      rcases hrc with rfl | rfl
+      · simp only [fromBlocks.go]
+        exact ih _ _ (Or.inr (by rw [hc])) hrest
+      · simp only [fromBlocks.go, hc, ne_eq, not_true_eq_false, if_false]
+        exact ih _ _ (Or.inr rfl) hrest
+    | .d2 t [] =>
+      simp only [fromBlocks.go]
+      exact ih _ _ hrc hrest
+    | .d2 t (c :: cs) =>
+      have hc : c.length = n := hb c (by simp [Block.colsOf])
+      have hcs : ∀ x ∈ cs, x.length = c.length := by
+        intro x hx; rw [hc]; exact hb x (by simp [Block.colsOf, hx])
+      have hcs' : ¬ ¬ (∀ x ∈ cs, x.length = c.length) := fun hn => hn hcs
+      rcases hrc with rfl | rfl
+      · simp only [fromBlocks.go]
+        rw [if_neg hcs']
+        exact ih _ _ (Or.inr (by rw [hc])) hrest
+      · simp only [fromBlocks.go]
+        rw [if_neg hcs', if_neg (by simp [hc])]
+        exact ih _ _ (Or.inr rfl) hrest
+
+theorem TB.fromBlocks_ok (bs : List (Block α)) (n r : Nat) (h : ∀ b ∈ bs, b.RowsOk n) :
+    ∃ tb', fromBlocks bs (some r) = .ok tb' := by
+  obtain ⟨rc', out, hgo⟩ := fromBlocks_go_ok bs n none [] (Or.inl rfl) h
+  unfold fromBlocks
+  rw [hgo]
+  cases rc' with
+  | none => exact ⟨_, rfl⟩
+  | some r' => exact ⟨_, rfl⟩
+
+/-- lexicographic order of directory entries -/
+def lexLt (p q : Nat × Nat) : Prop := p.1 < q.1 ∨ (p.1 = q.1 ∧ p.2 < q.2)
+
+theorem lexLt_ne {p q : Nat × Nat} (h : lexLt p q) : p ≠ q := by
+  intro e; subst e; rcases h with h | ⟨_, h⟩ <;> omega
+
+theorem TB.indexFrom_sorted (bi : Nat) (bs : List (Block α)) :
+    (indexFrom bi bs).Pairwise lexLt ∧ ∀ p ∈ indexFrom bi bs, bi ≤ p.1 := by
+  induction bs generalizing bi with
+  | nil => simp [indexFrom]
+  | cons b rest ih =>
+    obtain ⟨ih1, ih2⟩ := ih (bi + 1)
+    simp only [indexFrom]
+    refine ⟨?_, ?_⟩
+    · rw [List.pairwise_append]
+      refine ⟨?_, ih1, ?_⟩
+      · rw [List.pairwise_map]
+        exact List.Pairwise.imp (fun h => Or.inr ⟨rfl, h⟩) List.pairwise_lt_range
+      · intro p hp q hq
+        simp only [List.mem_map, List.mem_range] at hp
+        obtain ⟨c, _, rfl⟩ := hp
+        have := ih2 q hq
+        exact Or.inl (by simp; omega)
+    · intro p hp
+      simp only [List.mem_append, List.mem_map, List.mem_range] at hp
+      rcases hp with ⟨c, _, rfl⟩ | hp
+      · simp
+      · have := ih2 p hp; omega
+
+theorem TB.index_inj (tb : TB α) {a b : Nat} {p : Nat × Nat}
+    (ha : tb.index[a]? = some p) (hb : tb.index[b]? = some p) : a = b := by
+  have hs := (indexFrom_sorted 0 tb.blocks).1
+  rw [List.pairwise_iff_getElem] at hs
+  obtain ⟨ha1, ha2⟩ := List.getElem?_eq_some_iff.mp ha
+  obtain ⟨hb1, hb2⟩ := List.getElem?_eq_some_iff.mp hb
+  rcases Nat.lt_trichotomy a b with hlt | heq | hgt
+  · exact absurd (ha2.trans hb2.symm) (lexLt_ne (hs a b ha1 hb1 hlt))
+  · exact heq
+  · exact absurd (hb2.trans ha2.symm) (lexLt_ne (hs b a hb1 ha1 hgt))
+
+theorem mem_pick {β} {l : List β} {ps : List Nat} {x : β} (h : x ∈ pick l ps) : x ∈ l := by
+  unfold pick at h
+  rw [List.mem_filterMap] at h
+  obtain ⟨p, _, hp⟩ := h
+  exact List.mem_of_getElem? hp
+
+theorem TB.pick_index_nodup (tb : TB α) {cps : List Nat} (h : cps.Nodup) : (pick tb.index cps).Nodup := by
+  unfold pick
+  apply List.Pairwise.filterMap _ _ h
+  intro a a' hne b hb b' hb' e
+  subst e
+  exact hne (tb.index_inj hb hb')
+
+theorem monoRun_lt_one {run : List Nat} (h : MonoRun run) (hw : ∀ c ∈ run, c < 1) : run = [0] := by
+  rcases h with ⟨a, len, rfl⟩ | ⟨z, len, rfl⟩
+  · have h1 := hw a (by rw [List.mem_range'_1]; omega)
+    have h2 := hw (a + len) (by rw [List.mem_range'_1]; omega)
+    have : a = 0 := by omega
+    have : len = 0 := by omega
+    subst_vars; rfl
+  · have h1 := hw z (by rw [List.mem_reverse, List.mem_range'_1]; omega)
+    have h2 := hw (z + len) (by rw [List.mem_reverse, List.mem_range'_1]; omega)
+    have : z = 0 := by omega
+    have : len = 0 := by omega
+    subst_vars; rfl
+
+theorem contiguousPairs_total (l : List (Nat × Nat)) (bundle : List Nat) :
+    ∃ ps, contiguousPairs l none bundle = some ps := by
+  cases l with
+  | nil => exact ⟨[], rfl⟩
+  | cons p rest =>
+    obtain ⟨b, c⟩ := p
+    simp only [contiguousPairs]
+    exact contiguousPairs_total_some rest b c [c] (by simp)
+
+@[simp] theorem Seg.toTgt_pair (s : Seg) : s.toTgt.pair = s.pair := rfl
+@[simp] theorem Seg.toTgt_cells (s : Seg) : s.toTgt.cells = s.cells := rfl
+
+theorem Seg.toTgt_ok (tb : TB α) (s : Seg) (hg : s.Good) (hidx : ∀ c ∈ s.run, (s.blk, c) ∈ tb.index) :
+    s.toTgt.Ok tb := by
+  obtain ⟨hm, hs⟩ := hg
+  obtain ⟨c0, hc0⟩ := List.exists_mem_of_ne_nil _ hm.ne_nil
+  obtain ⟨blk, hblk, _⟩ := mem_index (hidx c0 hc0)
+  have hw : ∀ c ∈ s.run, c < blk.width := by
+    intro c hc
+    obtain ⟨blk', hblk', hlt⟩ := mem_index (hidx c hc)
+    simp only at hblk' hlt hblk
+    rw [hblk] at hblk'; cases hblk'; exact hlt
+  refine ⟨blk, hblk, monoRun_positions hm hw hs, ?_⟩
+  intro h1
+  cases blk with
+  | d1 t c => exact monoRun_lt_one hm hw
+  | d2 t cs => cases h1
+
+/-- the pairs produced from a duplicate-free selection of directory entries -/
+theorem TB.contiguous_tgts (tb : TB α) (l : List (Nat × Nat)) (hl : ∀ p ∈ l, p ∈ tb.index) (hnd : l.Nodup) :
+    ∃ tgts : List Tgt, contiguousPairs l none [] = some (tgts.map Tgt.pair) ∧
+      (∀ t ∈ tgts, t.Ok tb) ∧ tgts.flatMap Tgt.cells = l := by
+  obtain ⟨ps, hps⟩ := contiguousPairs_total l []
+  obtain ⟨segs, rfl, hflat, hgood, _⟩ := contiguousPairs_struct l [] ps hps hnd
+  refine ⟨segs.map Seg.toTgt, ?_, ?_, ?_⟩
+  · rw [hps]; simp [List.map_map, Function.comp_def]
+  · intro t ht
+    obtain ⟨s, hs, rfl⟩ := List.mem_map.mp ht
+    apply Seg.toTgt_ok tb s (hgood s hs)
+    intro c hc
+    apply hl
+    rw [← hflat, List.mem_flatMap]
+    exact ⟨s, hs, List.mem_map.mpr ⟨c, hc, rfl⟩⟩
+  · rw [← hflat]; simp [List.flatMap_map]
+
+theorem TB.indexFrom_eq_flatMap (bi : Nat) (bs : List (Block α)) :
+    indexFrom bi bs = (bs.zipIdx bi).flatMap (fun (x : Block α × Nat) => (List.range x.1.width).map (fun c => (x.2, c))) := by
+  induction bs generalizing bi with
+  | nil => rfl
+  | cons b rest ih => simp [indexFrom, List.zipIdx_cons, ih]
+
+/-- the `_all_block_slices` selection of one block -/
+def allSel (b : Block α) : BSel :=
+  match b with
+  | .d1 _ _ => .sl UNIT_SLICE
+  | .d2 _ cs => .sl ⟨some 0, some (cs.length : Int), none⟩
+
+theorem allSel_positions (b : Block α) : (allSel b).positions b.width = .ok (List.range b.width) := by
+  cases b with
+  | d1 t c =>
+    show UNIT_SLICE.positions 1 = .ok (List.range 1)
+    decide
+  | d2 t cs =>
+    simp only [allSel, BSel.positions, Block.width]
+    cases hl : cs.length with
+    | zero => decide
+    | succ n =>
+      have := positions_asc 0 n (n + 1) (by omega)
+      simp only [Int.natCast_zero, Int.zero_add] at this
+      rw [List.range_eq_range', ← this]
+      simp only [Int.natCast_add, Int.natCast_one]
+
+theorem mem_zipIdx_getElem? {β} {l : List β} {x : β} {i k : Nat} (h : (x, i) ∈ l.zipIdx k) :
+    k ≤ i ∧ l[i - k]? = some x := by
+  rw [List.mem_zipIdx_iff_le_and_getElem?_sub] at h
+  exact h
+
+theorem TB.all_tgts (tb : TB α) :
+    ∃ tgts : List Tgt, allBlockSlices tb = tgts.map Tgt.pair ∧
+      (∀ t ∈ tgts, t.Ok tb) ∧ tgts.flatMap Tgt.cells = tb.index := by
+  refine ⟨tb.blocks.zipIdx.map (fun x => ⟨x.2, allSel x.1, List.range x.1.width⟩), ?_, ?_, ?_⟩
+  · simp only [allBlockSlices, List.map_map]
+    apply List.map_congr_left
+    intro x _
+    obtain ⟨b, i⟩ := x
+    cases b <;> rfl
+  · intro t ht
+    obtain ⟨x, hx, rfl⟩ := List.mem_map.mp ht
+    obtain ⟨b, i⟩ := x
+    obtain ⟨_, hb⟩ := mem_zipIdx_getElem? hx
+    refine ⟨b, by simpa using hb, allSel_positions b, ?_⟩
+    intro h1
+    cases b with
+    | d1 t c => rfl
+    | d2 t cs => cases h1
+  · rw [index, indexFrom_eq_flatMap, List.flatMap_map]
+    rfl
+
+
+theorem TB.int_tgts (tb : TB α) (i : Int) (cps : List Nat) (retain : Bool)
+    (hck : (Key.int i).positions tb.ncols = .ok cps) :
+    ∃ tgts : List Tgt, keyToBlockSlices tb (.int i) retain = .ok (tgts.map Tgt.pair) ∧
+      (∀ t ∈ tgts, t.Ok tb) ∧ tgts.flatMap Tgt.cells = pick tb.index cps := by
+  obtain ⟨p, rfl, hp, _⟩ := C04.int_position hck
+  have hnp : normPos i tb.index.length = .ok p := by
+    rw [index_length]
+    simp only [Key.positions] at hck
+    cases hn : normPos i tb.ncols with
+    | error e => rw [hn] at hck; cases hck
+    | ok q => rw [hn] at hck; simp [Except.map] at hck; rw [hck]
+  have hpl : p < tb.index.length := by rw [index_length]; exact hp
+  obtain ⟨blk, hblk, hlt⟩ := mem_index (List.getElem_mem hpl)
+  refine ⟨[⟨tb.index[p].1, .col tb.index[p].2, [tb.index[p].2]⟩], ?_, ?_, ?_⟩
+  · simp only [keyToBlockSlices, hnp, List.getElem?_eq_getElem hpl]
+    rfl
+  · intro t ht
+    simp only [List.mem_singleton] at ht; subst ht
+    refine ⟨blk, hblk, ?_, ?_⟩
+    · simp [BSel.positions, hlt]
+    · intro h1
+      cases blk with
+      | d1 t c => simp only [Block.width] at hlt; simp; omega
+      | d2 t cs => cases h1
+  · simp [Tgt.cells, pick, List.getElem?_eq_getElem hpl]
+
+theorem TB.key_tgts_retain (tb : TB α) (ck : Key) (cps : List Nat)
+    (hck : ck.positions tb.ncols = .ok cps) (hnd : cps.Nodup) :
+    ∃ tgts : List Tgt, keyToBlockSlices tb ck true = .ok (tgts.map Tgt.pair) ∧
+      (∀ t ∈ tgts, t.Ok tb) ∧ tgts.flatMap Tgt.cells = pick tb.index cps := by
+  have hsel : ∀ ps : List Nat, ps.Nodup →
+      ∃ tgts : List Tgt, contiguousPairs (pick tb.index ps) none [] = some (tgts.map Tgt.pair) ∧
+        (∀ t ∈ tgts, t.Ok tb) ∧ tgts.flatMap Tgt.cells = pick tb.index ps :=
+    fun ps hps => tb.contiguous_tgts _ (fun p hp => mem_pick hp) (tb.pick_index_nodup hps)
+  cases ck with
+  | all =>
+    obtain ⟨tgts, h1, h2, h3⟩ := tb.all_tgts
+    simp only [Key.positions, Except.ok.injEq] at hck
+    subst hck
+    refine ⟨tgts, by simp only [keyToBlockSlices, h1], h2, ?_⟩
+    rw [h3, ← index_length, pick_range]
+  | int i => exact tb.int_tgts i cps true hck
+  | slice s =>
+    obtain ⟨tgts, h1, h2, h3⟩ := hsel cps hnd
+    refine ⟨tgts, ?_, h2, h3⟩
+    simp only [Key.positions] at hck
+    simp only [keyToBlockSlices, if_true, pyListSlice, index_length, hck, h1]
+  | mask bs =>
+    obtain ⟨tgts, h1, h2, h3⟩ := hsel cps hnd
+    refine ⟨tgts, ?_, h2, h3⟩
+    simp only [Key.positions] at hck
+    split at hck
+    · rename_i hlen
+      simp only [Except.ok.injEq] at hck
+      subst hck
+      have : ¬ (bs.length > tb.index.length ∧ (bs.drop tb.index.length).any id = true) := by
+        rw [index_length]; omega
+      simp only [keyToBlockSlices, if_neg this, h1]
+    · cases hck
+  | list is =>
+    obtain ⟨tgts, h1, h2, h3⟩ := hsel cps hnd
+    refine ⟨tgts, ?_, h2, h3⟩
+    simp only [Key.positions] at hck
+    simp only [keyToBlockSlices, index_length, hck, if_true, h1]
+
+theorem TB.fromBlocks_spec (bs : List (Block α)) (ref : Option Nat) (tb : TB α)
+    (h : TB.fromBlocks bs ref = .ok tb) :
+    tb.WF ∧ tb.cols = bs.flatMap Block.colsOf ∧ tb.dtypes = bs.flatMap (fun b => List.replicate b.width b.dt) := by
+  unfold fromBlocks at h
+  split at h
+  · cases h
+  · rename_i r acc hgo
+    simp only [Except.ok.injEq] at h
+    subst h
+    obtain ⟨h1, h2, h3, h4⟩ := fromBlocks_go_spec _ _ _ _ _ hgo
+    simp only [List.reverse_nil, List.nil_append] at h1
+    subst h1
+    refine ⟨⟨?_, ?_⟩, ?_, ?_⟩
+    · intro b hb; simpa using (List.mem_filter.mp hb).2
+    · exact h3 r rfl
+    · exact (flatMap_filter_width bs).1
+    · exact (flatMap_filter_width bs).2
+  · rename_i acc hgo
+    obtain ⟨h1, h2, h3, h4⟩ := fromBlocks_go_spec _ _ _ _ _ hgo
+    simp only [List.reverse_nil, List.nil_append] at h1
+    have hnil := h4 rfl
+    split at h
+    · simp only [Except.ok.injEq] at h
+      subst h
+      subst h1
+      refine ⟨⟨?_, ?_⟩, ?_, ?_⟩
+      · intro b hb; simpa using (List.mem_filter.mp hb).2
+      · intro b hb; rw [hnil] at hb; cases hb
+      · exact (flatMap_filter_width bs).1
+      · exact (flatMap_filter_width bs).2
+    · cases h
+
+theorem pick_map_of {β γ} (l : List β) (ps : List Nat) (F : β → γ) (G : Nat → γ)
+    (hlt : ∀ j ∈ ps, j < l.length) (h : ∀ j x, l[j]? = some x → F x = G j) :
+    (pick l ps).map F = ps.map G := by
+  unfold pick
+  induction ps with
+  | nil => rfl
+  | cons j ps ih =>
+    have hj : j < l.length := hlt j (by simp)
+    simp only [List.filterMap_cons, List.getElem?_eq_getElem hj, List.map_cons]
+    rw [ih (fun q hq => hlt q (by simp [hq])), h j _ (List.getElem?_eq_getElem hj)]
+
+theorem flatMap_congr' {β γ} {l : List β} {f g : β → List γ} (h : ∀ x ∈ l, f x = g x) :
+    l.flatMap f = l.flatMap g := by
+  induction l with
+  | nil => rfl
+  | cons a l ih =>
+    rw [List.flatMap_cons, List.flatMap_cons, h a List.mem_cons_self,
+      ih (fun x hx => h x (List.mem_cons_of_mem _ hx))]
+
+theorem rowSel_length (rpo : Option (List Nat)) (c : List α) (n : Nat)
+    (h : match rpo with | none => c.length = n | some ps => ps.length = n ∧ ∀ p ∈ ps, p < c.length) :
+    (rowSel rpo c).length = n := by
+  cases rpo with
+  | none => exact h
+  | some ps => simp only [rowSel]; rw [pick_length _ _ h.2]; exact h.1
+
+/-- every cell of the directory holds a column with `rows` cells -/
+theorem TB.colAt_length (tb : TB α) (hwf : tb.WF) {p : Nat × Nat} (hp : p ∈ tb.index) :
+    (tb.colAt p).length = tb.rows := by
+  obtain ⟨j, hj⟩ := List.mem_iff_getElem?.mp hp
+  obtain ⟨h1, _⟩ := tb.index_colAt j p hj
+  have hmem : tb.colAt p ∈ tb.cols := List.mem_of_getElem? h1
+  simp only [cols, List.mem_flatMap] at hmem
+  obtain ⟨b, hb, hcb⟩ := hmem
+  exact hwf.2 b hb _ hcb
+
+theorem TB.extract_spec (tb : TB α) (h : tb.WF) (rk ck : Key) (rps cps : List Nat)
+    (hck : ck.positions tb.ncols = .ok cps) (hnd : cps.Nodup) (hrk : rk.positions tb.rows = .ok rps) :
+    ∃ r, tb.extract rk ck = .ok r ∧
+      r.cols = cps.map (fun j => pick (tb.cols.getD j []) rps) ∧
+      r.dtypes = cps.map (fun j => tb.dtypes.getD j "") ∧ r.rows = rps.length := by
+  obtain ⟨tgts, hk, hok, hcells⟩ := tb.key_tgts_retain ck cps hck hnd
+  have hcpslt := C04.key_positions_in_range hck
+  have hrpslt := C04.key_positions_in_range hrk
+  -- the row selection
+  obtain ⟨rpo, hrpo, hsel, hlen⟩ : ∃ rpo : Option (List Nat), rowPositions tb rk = .ok rpo ∧
+      (∀ c : List α, c.length = tb.rows → rowSel rpo c = pick c rps) ∧
+      (match rpo with | none => tb.rows | some ps => ps.length) = rps.length := by
+    by_cases hall : rk = .all
+    · subst hall
+      simp only [Key.positions, Except.ok.injEq] at hrk
+      subst hrk
+      refine ⟨none, rfl, ?_, by simp⟩
+      intro c hc; rw [← hc, pick_range]; rfl
+    · refine ⟨some rps, ?_, fun c _ => rfl, rfl⟩
+      cases rk with
+      | all => exact absurd rfl hall
+      | _ => simp only [rowPositions, hrk]; rfl
+  have hblocks := sliceBlocks_tgts tb rpo tgts hok
+  have hcellmem : ∀ t ∈ tgts, ∀ p ∈ t.cells, p ∈ tb.index := by
+    intro t ht p hp
+    have : p ∈ tgts.flatMap Tgt.cells := List.mem_flatMap.mpr ⟨t, ht, hp⟩
+    rw [hcells] at this
+    exact mem_pick this
+  have hrows : ∀ b ∈ tgts.map (slicedTgt tb rpo), b.RowsOk rps.length := by
+    intro b hb
+    obtain ⟨t, ht, rfl⟩ := List.mem_map.mp hb
+    intro c hc
+    rw [(slicedTgt_spec tb rpo t (hok t ht)).1] at hc
+    obtain ⟨p, hp, rfl⟩ := List.mem_map.mp hc
+    have hl := tb.colAt_length h (hcellmem t ht p hp)
+    rw [hsel _ hl, pick_length]
+    intro q hq; rw [hl]; exact hrpslt q hq
+  obtain ⟨tb', htb'⟩ := fromBlocks_ok (tgts.map (slicedTgt tb rpo)) rps.length tb.rows hrows
+  obtain ⟨_, hcols, hdts⟩ := TB.fromBlocks_spec _ _ _ htb'
+  have hflat : ∀ {γ} (f : Block α → List γ) (F : Nat × Nat → γ),
+      (∀ t ∈ tgts, f (slicedTgt tb rpo t) = t.cells.map F) →
+      (tgts.map (slicedTgt tb rpo)).flatMap f = (pick tb.index cps).map F := by
+    intro γ f F hf
+    rw [← hcells, List.flatMap_map, List.map_flatMap]
+    exact flatMap_congr' hf
+  refine ⟨{ tb' with rows := rps.length }, ?_, ?_, ?_, rfl⟩
+  · simp only [extract, hrpo, hk, hblocks, bind, Except.bind, htb']
+    cases rpo with
+    | none => simp only at hlen ⊢; rw [hlen]
+    | some ps => simp only at hlen ⊢; rw [hlen]
+  · show tb'.cols = _
+    rw [hcols, hflat _ _ (fun t ht => (slicedTgt_spec tb rpo t (hok t ht)).1)]
+    apply pick_map_of
+    · intro j hj; rw [index_length]; exact hcpslt j hj
+    · intro j p hj
+      have hl := tb.colAt_length h (List.mem_of_getElem? hj)
+      rw [hsel _ hl, List.getD_eq_getElem?_getD, (tb.index_colAt j p hj).1]
+      rfl
+  · show tb'.dtypes = _
+    rw [hdts, hflat _ _ (fun t ht => (slicedTgt_spec tb rpo t (hok t ht)).2)]
+    apply pick_map_of
+    · intro j hj; rw [index_length]; exact hcpslt j hj
+    · intro j p hj
+      rw [List.getD_eq_getElem?_getD, (tb.index_colAt j p hj).2]
+      rfl
+
+/-! ### `_drop_blocks` and the column-wise map generators -/
+
+/-- row deletion on one column (the `del` inside `rowDelete`) -/
+def delRows (rdel : Option (List Nat)) (c : List α) : List α :=
+  match rdel with
+  | none => c
+  | some ps => (c.zipIdx.filter (fun (_, i) => ¬ ps.contains i)).map (·.1)
+
+theorem rowDelete_spec (rdel : Option (List Nat)) (b : Block α) :
+    (rowDelete rdel b).colsOf = b.colsOf.map (delRows rdel) ∧ (rowDelete rdel b).dt = b.dt ∧
+    (rowDelete rdel b).width = b.width := by
+  cases b with
+  | d1 t c => exact ⟨rfl, rfl, rfl⟩
+  | d2 t cs => exact ⟨rfl, rfl, by simp [rowDelete, Block.width]⟩
+
+theorem delRows_length (rdel : Option (List Nat)) (c : List α) :
+    (delRows rdel c).length = match rdel with
+      | none => c.length
+      | some ps => ((List.range c.length).filter (fun i => ¬ ps.contains i)).length := by
+  cases rdel with
+  | none => rfl
+  | some ps =>
+    simp only [delRows, List.length_map]
+    have : ((c.zipIdx.filter (fun x => ¬ ps.contains x.2)).map (·.2)) =
+        (List.range c.length).filter (fun i => ¬ ps.contains i) := by
+      have h2 : List.range c.length = c.zipIdx.map (·.2) := by
+        simp [List.zipIdx_map_snd, List.range_eq_range']
+      rw [h2, List.filter_map]
+      rfl
+    rw [← this, List.length_map]
+
+theorem TB.dropBlocksGo_nil (rdel : Option (List Nat)) (bi : Nat) (bs : List (Block α)) :
+    dropBlocksGo rdel bi bs [] = some (bs.map (rowDelete rdel)) := by
+  induction bs generalizing bi with
+  | nil => rfl
+  | cons b rest ih => simp [dropBlocksGo, ih]
+
+theorem flatMap_colsOf_map (bs : List (Block α)) (f : Block α → Block α) (g : List α → List α)
+    (h : ∀ b, (f b).colsOf = b.colsOf.map g) :
+    (bs.map f).flatMap Block.colsOf = (bs.flatMap Block.colsOf).map g := by
+  rw [List.flatMap_map, List.map_flatMap]
+  exact flatMap_congr' (fun b _ => h b)
+
+/-- `(dtype, column)` view of a block / block list -/
+def Block.colsDT (b : Block α) : List (DT × List α) := b.colsOf.map (fun c => (b.dt, c))
+def colsDT (bs : List (Block α)) : List (DT × List α) := bs.flatMap Block.colsDT
+
+theorem colsDT_snd (bs : List (Block α)) : (colsDT bs).map Prod.snd = bs.flatMap Block.colsOf := by
+  simp only [colsDT, List.map_flatMap, Block.colsDT, List.map_map]
+  apply flatMap_congr'
+  intro b _; simp [Function.comp_def]
+
+theorem colsDT_fst (bs : List (Block α)) :
+    (colsDT bs).map Prod.fst = bs.flatMap (fun b => List.replicate b.width b.dt) := by
+  simp only [colsDT, List.map_flatMap, Block.colsDT, List.map_map]
+  apply flatMap_congr'
+  intro b _
+  apply List.ext_getElem
+  · simp
+  · intro i h1 h2; simp
+
+@[simp] theorem colsDT_nil : colsDT ([] : List (Block α)) = [] := rfl
+@[simp] theorem colsDT_cons (b : Block α) (bs : List (Block α)) : colsDT (b :: bs) = b.colsDT ++ colsDT bs := rfl
+@[simp] theorem colsDT_append (xs ys : List (Block α)) : colsDT (xs ++ ys) = colsDT xs ++ colsDT ys := by
+  simp [colsDT]
+
+theorem subCols_eq_map (cs : List (List α)) (a b : Nat) (hb : b ≤ cs.length) :
+    subCols cs a b = (List.range' a (b - a)).map (fun c => cs.getD c []) := by
+  apply List.ext_getElem
+  · simp [subCols]; omega
+  · intro i h1 h2
+    simp only [subCols, List.getElem_take, List.getElem_drop, List.getElem_map, List.getElem_range',
+      List.getD_eq_getElem?_getD]
+    simp only [List.length_map, List.length_range'] at h2
+    rw [List.getElem?_eq_getElem (by omega)]
+    simp
+
+theorem colsDT_d2_subCols (t : DT) (cs : List (List α)) (a b : Nat) (hb : b ≤ cs.length) :
+    (Block.d2 t (subCols cs a b)).colsDT = (List.range' a (b - a)).map (fun c => (t, cs.getD c [])) := by
+  simp [Block.colsDT, Block.colsOf, Block.dt, subCols_eq_map cs a b hb]
+
+/-- an ascending target: block `blk`, columns `a .. a+len` -/
+structure ATgt where
+  blk : Nat
+  sel : BSel
+  a : Nat
+  len : Nat
+
+def ATgt.pair (t : ATgt) : Nat × BSel := (t.blk, t.sel)
+def ATgt.hi (t : ATgt) : Nat := t.a + t.len + 1
+def ATgt.cells (t : ATgt) : List (Nat × Nat) := (List.range' t.a (t.len + 1)).map (fun c => (t.blk, c))
+/-- strictly later target, with a gap inside the same block -/
+def ALt (t1 t2 : ATgt) : Prop := t1.blk < t2.blk ∨ (t1.blk = t2.blk ∧ t1.hi < t2.a)
+
+/-- `f` acts column-wise: `fd` on the dtype, `fc` on every column -/
+structure ColFn (f : Block α → Block α) (fd : DT → DT) (fc : List α → List α) : Prop where
+  d1 : ∀ t c, f (.d1 t c) = .d1 (fd t) (fc c)
+  d2 : ∀ t cs, f (.d2 t cs) = .d2 (fd t) (cs.map fc)
+
+theorem range'_split3 (ps a hi ps' : Nat) (h1 : ps ≤ a) (h2 : a ≤ hi) (h3 : hi ≤ ps') :
+    List.range' ps (ps' - ps) = List.range' ps (a - ps) ++ (List.range' a (hi - a) ++ List.range' hi (ps' - hi)) := by
+  have e1 : ps' - ps = (a - ps) + ((hi - a) + (ps' - hi)) := by omega
+  rw [e1, ← List.range'_append_1, ← List.range'_append_1]
+  congr 2
+  · congr 1 <;> omega
+  · congr 1; omega
+
+/-- the sub-block `mapWalk` hands to `f` -/
+def mapTarget (t : DT) (cs : List (List α)) (sel : BSel) (a hi : Nat) : Block α :=
+  match sel with
+  | .col c => Block.d1 t (cs.getD c [])
+  | .sl _ => Block.d2 t (subCols cs a hi)
+
+theorem mapWalk_target_colsDT {f : Block α → Block α} {fd fc} (hf : ColFn f fd fc) (t : DT)
+    (cs : List (List α)) (sel : BSel) (a hi : Nat) (hr : sel.range = some (a, hi)) (hlt : a < hi)
+    (hhi : hi ≤ cs.length) :
+    (f (mapTarget t cs sel a hi)).colsDT
+      = (List.range' a (hi - a)).map (fun c => (fd t, fc (cs.getD c []))) := by
+  unfold mapTarget
+  cases sel with
+  | col c =>
+    simp only [BSel.range, Option.some.injEq, Prod.mk.injEq] at hr
+    obtain ⟨rfl, rfl⟩ := hr
+    simp [hf.d1, Block.colsDT, Block.colsOf, Block.dt, List.range'_succ]
+  | sl s =>
+    simp only [hf.d2, Block.colsDT, Block.colsOf, Block.dt, subCols_eq_map cs a hi hhi, List.map_map]
+    rfl
+
+
+theorem mapWalk_spec {f : Block α → Block α} {fd fc} (hf : ColFn f fd fc) (t : DT) (cs : List (List α))
+    (bi : Nat) (cov : Nat → Bool) (pre post : List ATgt) (ps : Nat) (parts : List (Block α))
+    (hpre : ∀ p ∈ pre, p.blk = bi ∧ p.sel.range = some (p.a, p.hi) ∧ p.hi ≤ cs.length)
+    (hsorted : pre.Pairwise ALt) (hps : ∀ p ∈ pre, ps ≤ p.a) (hpsl : ps ≤ cs.length)
+    (hpost : ∀ q, post.head? = some q → q.blk ≠ bi)
+    (hcov : ∀ c, ps ≤ c → (cov c = true ↔ ∃ p ∈ pre, p.a ≤ c ∧ c < p.hi)) :
+    ∃ parts' ps', mapWalk f t cs bi ((pre ++ post).map ATgt.pair) ps parts
+        = some (parts ++ parts', ps', post.map ATgt.pair) ∧
+      ps ≤ ps' ∧ ps' ≤ cs.length ∧ (∀ p ∈ pre, p.hi ≤ ps') ∧
+      colsDT parts' = (List.range' ps (ps' - ps)).map
+        (fun c => if cov c then (fd t, fc (cs.getD c [])) else (t, cs.getD c [])) := by
+  induction pre generalizing ps parts with
+  | nil =>
+    refine ⟨[], ps, ?_, Nat.le_refl _, hpsl, by simp, by simp⟩
+    cases post with
+    | nil => simp [mapWalk]
+    | cons q post' =>
+      have hq := hpost q rfl
+      simp only [List.nil_append, List.map_cons, mapWalk, ATgt.pair, ne_eq, hq, not_false_eq_true,
+        if_true, List.append_nil]
+  | cons p pre' ih =>
+    obtain ⟨hblk, hrange, hhi⟩ := hpre p List.mem_cons_self
+    have hpa := hps p List.mem_cons_self
+    rw [List.pairwise_cons] at hsorted
+    obtain ⟨hp_lt, hsorted'⟩ := hsorted
+    have hahi : p.a < p.hi := by simp [ATgt.hi]; omega
+    have hnext : ∀ p' ∈ pre', p.hi < p'.a := by
+      intro p' hp'
+      have hb' := (hpre p' (List.mem_cons_of_mem _ hp')).1
+      rcases hp_lt p' hp' with h | ⟨_, h⟩
+      · omega
+      · exact h
+    let parts1 := if p.a > ps then parts ++ [Block.d2 t (subCols cs ps p.a)] else parts
+    let target : Block α := mapTarget t cs p.sel p.a p.hi
+    obtain ⟨parts'', ps', hw, h1, h2, h3, h4⟩ := ih p.hi (parts1 ++ [f target])
+      (fun q hq => hpre q (List.mem_cons_of_mem _ hq)) hsorted'
+      (fun q hq => Nat.le_of_lt (hnext q hq)) hhi
+      (by
+        intro c hc
+        rw [hcov c (by omega)]
+        constructor
+        · rintro ⟨q, hq, hq1, hq2⟩
+          rw [List.mem_cons] at hq
+          rcases hq with rfl | hq
+          · omega
+          · exact ⟨q, hq, hq1, hq2⟩
+        · rintro ⟨q, hq, hq1, hq2⟩
+          exact ⟨q, List.mem_cons_of_mem _ hq, hq1, hq2⟩)
+    have hgapcov : ∀ c, ps ≤ c → c < p.a → cov c = false := by
+      intro c hc1 hc2
+      cases hcv : cov c with
+      | false => rfl
+      | true =>
+        obtain ⟨q, hq, hq1, hq2⟩ := (hcov c hc1).mp hcv
+        rw [List.mem_cons] at hq
+        rcases hq with rfl | hq
+        · omega
+        · have := hnext q hq; omega
+    have htcov : ∀ c, p.a ≤ c → c < p.hi → cov c = true := by
+      intro c hc1 hc2
+      exact (hcov c (by omega)).mpr ⟨p, List.mem_cons_self, hc1, hc2⟩
+    have htarget := mapWalk_target_colsDT hf t cs p.sel p.a p.hi hrange hahi hhi
+    refine ⟨(if p.a > ps then [Block.d2 t (subCols cs ps p.a)] else []) ++ ([f target] ++ parts''), ps', ?_,
+      by omega, h2, ?_, ?_⟩
+    · simp only [List.cons_append, List.map_cons, mapWalk, ATgt.pair, hblk, ne_eq, not_true_eq_false,
+        if_false, hrange]
+      show mapWalk f t cs bi _ p.hi (parts1 ++ [f target]) = _
+      rw [hw]
+      congr 2
+      simp only [parts1]
+      split <;> simp
+    · intro q hq
+      rw [List.mem_cons] at hq
+      rcases hq with rfl | hq
+      · exact h1
+      · exact h3 q hq
+    · rw [colsDT_append, colsDT_append, h4, range'_split3 ps p.a p.hi ps' hpa (Nat.le_of_lt hahi) h1,
+        List.map_append, List.map_append]
+      congr 1
+      · by_cases hgt : p.a > ps
+        · rw [if_pos hgt]
+          simp only [colsDT_cons, colsDT_nil, List.append_nil, colsDT_d2_subCols t cs ps p.a (by omega)]
+          apply List.map_congr_left
+          intro c hc
+          rw [List.mem_range'_1] at hc
+          rw [hgapcov c hc.1 (by omega)]; rfl
+        · have : p.a - ps = 0 := by omega
+          rw [if_neg hgt, this]; rfl
+      · congr 1
+        simp only [colsDT_cons, colsDT_nil, List.append_nil]
+        rw [htarget]
+        apply List.map_congr_left
+        intro c hc
+        rw [List.mem_range'_1] at hc
+        rw [htcov c hc.1 (by omega)]; rfl
+
+theorem ALt.blk_le {t1 t2 : ATgt} (h : ALt t1 t2) : t1.blk ≤ t2.blk := by
+  rcases h with h | ⟨h, _⟩ <;> omega
+
+/-- split sorted targets into those of block `bi` and the later ones -/
+theorem split_targets (bi : Nat) (tgts : List ATgt) (hge : ∀ t ∈ tgts, bi ≤ t.blk)
+    (hsorted : tgts.Pairwise ALt) :
+    ∃ pre post, tgts = pre ++ post ∧ (∀ p ∈ pre, p.blk = bi) ∧ (∀ q ∈ post, bi < q.blk) := by
+  induction tgts with
+  | nil => exact ⟨[], [], rfl, by simp, by simp⟩
+  | cons t ts ih =>
+    rw [List.pairwise_cons] at hsorted
+    by_cases ht : t.blk = bi
+    · obtain ⟨pre, post, h1, h2, h3⟩ := ih (fun x hx => hge x (List.mem_cons_of_mem _ hx)) hsorted.2
+      refine ⟨t :: pre, post, by rw [h1]; rfl, ?_, h3⟩
+      intro p hp
+      rw [List.mem_cons] at hp
+      rcases hp with rfl | hp
+      · exact ht
+      · exact h2 p hp
+    · refine ⟨[], t :: ts, rfl, by simp, ?_⟩
+      have := hge t List.mem_cons_self
+      intro q hq
+      rw [List.mem_cons] at hq
+      rcases hq with rfl | hq
+      · omega
+      · have := (hsorted.1 q hq).blk_le; omega
+
+theorem Block.colsDT_eq_range (b : Block α) :
+    b.colsDT = (List.range b.width).map (fun c => (b.dt, b.colsOf.getD c [])) := by
+  apply List.ext_getElem
+  · simp [Block.colsDT]
+  · intro i h1 h2
+    simp only [Block.colsDT, List.length_map, Block.colsOf_length] at h1
+    simp [Block.colsDT, List.getD_eq_getElem?_getD, List.getElem?_eq_getElem (show i < b.colsOf.length by simpa using h1)]
+
+/-- the expected `(dtype, column)` list after mapping the covered cells -/
+def mapSpec (cov : Nat × Nat → Bool) (hh : DT × List α → DT × List α) : Nat → List (Block α) → List (DT × List α)
+  | _, [] => []
+  | bi, b :: rest =>
+    (List.range b.width).map (fun c =>
+      if cov (bi, c) then hh (b.dt, b.colsOf.getD c []) else (b.dt, b.colsOf.getD c [])) ++
+    mapSpec cov hh (bi + 1) rest
+
+theorem dropWhile_map_pair (bi : Nat) (pre post : List ATgt) (h1 : ∀ p ∈ pre, p.blk = bi)
+    (h2 : ∀ q ∈ post, bi < q.blk) :
+    ((pre ++ post).map ATgt.pair).dropWhile (fun x => decide (x.1 = bi)) = post.map ATgt.pair := by
+  induction pre with
+  | nil =>
+    cases post with
+    | nil => rfl
+    | cons q post' =>
+      have := h2 q List.mem_cons_self
+      simp only [List.nil_append, List.map_cons, List.dropWhile_cons, ATgt.pair]
+      rw [if_neg (by simp; omega)]
+  | cons p pre' ih =>
+    simp only [List.cons_append, List.map_cons, List.dropWhile_cons, ATgt.pair]
+    rw [if_pos (by simp [h1 p List.mem_cons_self])]
+    exact ih (fun x hx => h1 x (List.mem_cons_of_mem _ hx))
+
+theorem mapBlocksGo_spec {f : Block α → Block α} {fd fc} (hf : ColFn f fd fc) (skip : Block α → Bool)
+    (skipT : DT → Bool) (hskip : ∀ b, skip b = skipT b.dt)
+    (cov : Nat × Nat → Bool) (bi : Nat) (bs : List (Block α)) (tgts : List ATgt)
+    (hok : ∀ t ∈ tgts, t.sel.range = some (t.a, t.hi) ∧ bi ≤ t.blk ∧
+      ∃ b, bs[t.blk - bi]? = some b ∧ t.hi ≤ b.width)
+    (hsorted : tgts.Pairwise ALt)
+    (hcov : ∀ p : Nat × Nat, bi ≤ p.1 →
+      (cov p = true ↔ ∃ t ∈ tgts, t.blk = p.1 ∧ t.a ≤ p.2 ∧ p.2 < t.hi)) :
+    ∃ out, mapBlocksGo f skip bi bs (tgts.map ATgt.pair) = some out ∧
+      colsDT out = mapSpec cov (fun x => if skipT x.1 then x else (fd x.1, fc x.2)) bi bs := by
+  induction bs generalizing bi tgts with
+  | nil => exact ⟨[], by simp [mapBlocksGo], rfl⟩
+  | cons b rest ih =>
+    obtain ⟨pre, post, rfl, hpre, hpost⟩ := split_targets bi tgts (fun t ht => (hok t ht).2.1) hsorted
+    rw [List.pairwise_append] at hsorted
+    obtain ⟨hspre, hspost, hcross⟩ := hsorted
+    -- recursive call on the remaining blocks
+    obtain ⟨out', hout', hspec'⟩ := ih (bi + 1) post
+      (by
+        intro t ht
+        obtain ⟨h1, h2, b', h3, h4⟩ := hok t (List.mem_append_right _ ht)
+        have := hpost t ht
+        refine ⟨h1, by omega, b', ?_, h4⟩
+        have e : t.blk - bi = (t.blk - (bi + 1)) + 1 := by omega
+        rw [e, List.getElem?_cons_succ] at h3
+        exact h3)
+      hspost
+      (by
+        intro p hp
+        rw [hcov p (by omega)]
+        constructor
+        · rintro ⟨t, ht, h1, h2⟩
+          rw [List.mem_append] at ht
+          rcases ht with ht | ht
+          · have := hpre t ht; omega
+          · exact ⟨t, ht, h1, h2⟩
+        · rintro ⟨t, ht, h1, h2⟩
+          exact ⟨t, List.mem_append_right _ ht, h1, h2⟩)
+    have hcovb : ∀ c, cov (bi, c) = true ↔ ∃ p ∈ pre, p.a ≤ c ∧ c < p.hi := by
+      intro c
+      rw [hcov (bi, c) (Nat.le_refl _)]
+      constructor
+      · rintro ⟨t, ht, h1, h2⟩
+        rw [List.mem_append] at ht
+        rcases ht with ht | ht
+        · exact ⟨t, ht, h2⟩
+        · have := hpost t ht; simp only at h1; omega
+      · rintro ⟨t, ht, h2⟩
+        exact ⟨t, List.mem_append_left _ ht, hpre t ht, h2⟩
+    have hwidth : ∀ p ∈ pre, p.hi ≤ b.width := by
+      intro p hp
+      obtain ⟨_, _, b', h3, h4⟩ := hok p (List.mem_append_left _ hp)
+      rw [hpre p hp, Nat.sub_self, List.getElem?_cons_zero] at h3
+      cases h3; exact h4
+    simp only [mapSpec]
+    cases pre with
+    | nil =>
+      have hnc : ∀ c, cov (bi, c) = false := by
+        intro c
+        cases h : cov (bi, c) with
+        | false => rfl
+        | true => obtain ⟨p, hp, _⟩ := (hcovb c).mp h; cases hp
+      refine ⟨b :: out', ?_, ?_⟩
+      · cases post with
+        | nil => simp only [List.append_nil, List.map_nil, mapBlocksGo] at hout' ⊢; rw [hout']; rfl
+        | cons q post' =>
+          have hq := hpost q List.mem_cons_self
+          have hne : q.blk ≠ bi := by omega
+          simp only [List.nil_append, List.map_cons, mapBlocksGo, ATgt.pair, ne_eq, hne,
+            not_false_eq_true, if_true] at hout' ⊢
+          rw [hout']; rfl
+      · rw [colsDT_cons, hspec', Block.colsDT_eq_range]
+        congr 1
+        apply List.map_congr_left
+        intro c _
+        rw [hnc c]; rfl
+    | cons t pre' =>
+      have htb : t.blk = bi := hpre t List.mem_cons_self
+      by_cases hsk : skip b = true
+      · refine ⟨b :: out', ?_, ?_⟩
+        · have hdw := dropWhile_map_pair bi (t :: pre') post hpre hpost
+          simp only [List.cons_append, List.map_cons] at hdw
+          simp only [List.cons_append, List.map_cons, mapBlocksGo, ATgt.pair, htb, ne_eq,
+            not_true_eq_false, if_false, hsk, if_true]
+          simp only [ATgt.pair, htb] at hdw
+          rw [hdw, hout']; rfl
+        · rw [colsDT_cons, hspec', Block.colsDT_eq_range]
+          congr 1
+          apply List.map_congr_left
+          intro c _
+          have : skipT b.dt = true := by rw [← hskip]; exact hsk
+          simp [this]
+      · have hskT : skipT b.dt = false := by
+          rw [← hskip]; simpa using hsk
+        cases b with
+        | d1 dt col =>
+          simp only [Block.dt] at hskT
+          have hpre'nil : pre' = [] := by
+            cases pre' with
+            | nil => rfl
+            | cons p' pre'' =>
+              exfalso
+              rw [List.pairwise_cons] at hspre
+              have h1 := hspre.1 p' List.mem_cons_self
+              have h2 := hwidth p' (List.mem_cons_of_mem _ List.mem_cons_self)
+              have h3 := hpre p' (List.mem_cons_of_mem _ List.mem_cons_self)
+              simp only [Block.width] at h2
+              rcases h1 with h1 | ⟨_, h1⟩
+              · omega
+              · simp only [ATgt.hi] at h1 h2; omega
+          subst hpre'nil
+          have hthi := hwidth t List.mem_cons_self
+          simp only [Block.width, ATgt.hi] at hthi
+          refine ⟨f (Block.d1 dt col) :: out', ?_, ?_⟩
+          · simp only [List.cons_append, List.nil_append, List.map_cons, mapBlocksGo, ATgt.pair, htb, ne_eq,
+              not_true_eq_false, if_false, hsk, List.tail_cons, Bool.false_eq_true]
+            rw [hout']; rfl
+          · rw [colsDT_cons, hspec']
+            congr 1
+            have hc0 : cov (bi, 0) = true :=
+              (hcovb 0).mpr ⟨t, List.mem_cons_self, by omega, by simp [ATgt.hi]⟩
+            simp [hf.d1, Block.colsDT, Block.colsOf, Block.dt, Block.width, hc0, hskT]
+        | d2 dt cs =>
+          simp only [Block.dt] at hskT
+          obtain ⟨parts', ps', hw, _, hps'l, hhi, hparts⟩ :=
+            mapWalk_spec hf dt cs bi (fun c => cov (bi, c)) (t :: pre') post 0 []
+              (by
+                intro p hp
+                refine ⟨hpre p hp, (hok p (List.mem_append_left _ hp)).1, ?_⟩
+                have := hwidth p hp
+                simpa [Block.width] using this)
+              hspre (fun _ _ => Nat.zero_le _) (Nat.zero_le _)
+              (by
+                intro q hq
+                have := hpost q (List.mem_of_mem_head? hq)
+                omega)
+              (fun c _ => hcovb c)
+          simp only [List.nil_append] at hw
+          have hbeyond : ∀ c, ps' ≤ c → cov (bi, c) = false := by
+            intro c hc
+            cases h : cov (bi, c) with
+            | false => rfl
+            | true =>
+              obtain ⟨p, hp, _, hp2⟩ := (hcovb c).mp h
+              have := hhi p hp; omega
+          refine ⟨(if ps' < cs.length then parts' ++ [Block.d2 dt (subCols cs ps' cs.length)] else parts') ++ out',
+            ?_, ?_⟩
+          · simp only [List.cons_append, List.map_cons, mapBlocksGo, ATgt.pair, htb, ne_eq,
+              not_true_eq_false, if_false, hsk, Bool.false_eq_true]
+            simp only [List.cons_append, List.map_cons, ATgt.pair, htb] at hw
+            rw [hw]
+            simp only
+            rw [hout']; rfl
+          · rw [colsDT_append, hspec']
+            congr 1
+            simp only [Block.width, Block.dt, Block.colsOf]
+            have hsplit : List.range cs.length = List.range' 0 (ps' - 0) ++ List.range' ps' (cs.length - ps') := by
+              rw [List.range_eq_range']
+              have : cs.length = (ps' - 0) + (cs.length - ps') := by omega
+              conv => lhs; rw [this]
+              rw [← List.range'_append_1]; simp
+            rw [hsplit, List.map_append]
+            by_cases hlt : ps' < cs.length
+            · rw [if_pos hlt, colsDT_append, hparts]
+              congr 1
+              · apply List.map_congr_left
+                intro c _
+                simp [hskT]
+              · simp only [colsDT_cons, colsDT_nil, List.append_nil,
+                  colsDT_d2_subCols dt cs ps' cs.length (Nat.le_refl _)]
+                apply List.map_congr_left
+                intro c hc
+                rw [List.mem_range'_1] at hc
+                rw [hbeyond c hc.1]; rfl
+            · have : cs.length - ps' = 0 := by omega
+              rw [if_neg hlt, hparts, this]
+              simp only [List.range'_zero, List.map_nil, List.append_nil]
+              apply List.map_congr_left
+              intro c _
+              simp [hskT]
+
+theorem TB.pick_index_sorted (tb : TB α) {cps : List Nat} (h : cps.Pairwise (· < ·)) :
+    (pick tb.index cps).Pairwise lexLt := by
+  unfold pick
+  apply List.Pairwise.filterMap _ _ h
+  intro a a' hlt b hb b' hb'
+  have hs := (indexFrom_sorted 0 tb.blocks).1
+  rw [List.pairwise_iff_getElem] at hs
+  obtain ⟨ha1, ha2⟩ := List.getElem?_eq_some_iff.mp hb
+  obtain ⟨hb1, hb2⟩ := List.getElem?_eq_some_iff.mp hb'
+  rw [← ha2, ← hb2]
+  exact hs a a' ha1 hb1 hlt
+
+/-- an ascending ±1 run is an interval -/
+theorem monoRun_asc {run : List Nat} (h : MonoRun run) (hs : run.Pairwise (· < ·)) :
+    ∃ a len, run = List.range' a (len + 1) := by
+  rcases h with h | ⟨z, len, rfl⟩
+  · exact h
+  · cases len with
+    | zero => exact ⟨z, 0, by simp [List.range'_succ]⟩
+    | succ len =>
+      exfalso
+      rw [List.range'_succ, List.range'_succ, List.reverse_cons, List.reverse_cons, List.append_assoc,
+        List.pairwise_append] at hs
+      have := hs.2.1
+      simp at this
+      omega
+
+/-- weak order of segments -/
+def ALe (t1 t2 : ATgt) : Prop := t1.blk < t2.blk ∨ (t1.blk = t2.blk ∧ t1.hi ≤ t2.a)
+
+/-- adjacency break on ascending targets -/
+def ABreaks (t1 t2 : ATgt) : Prop := ¬ (t1.blk = t2.blk ∧ t2.a = t1.hi)
+
+def AChain : List ATgt → Prop
+  | [] => True
+  | [_] => True
+  | a :: b :: rest => ABreaks a b ∧ AChain (b :: rest)
+
+theorem pairwise_alt_of_chain (l : List ATgt) (hle : l.Pairwise ALe) (hch : AChain l) : l.Pairwise ALt := by
+  induction l with
+  | nil => exact List.Pairwise.nil
+  | cons s rest ih =>
+    rw [List.pairwise_cons] at hle ⊢
+    refine ⟨?_, ih hle.2 (by cases rest with | nil => trivial | cons h tl => exact hch.2)⟩
+    intro s' hs'
+    cases rest with
+    | nil => cases hs'
+    | cons h tl =>
+      have hbr : ABreaks s h := hch.1
+      have hsh := hle.1 h List.mem_cons_self
+      rw [List.mem_cons] at hs'
+      rcases hs' with rfl | hs'
+      · rcases hsh with hlt | ⟨heq, hhi⟩
+        · exact Or.inl hlt
+        · refine Or.inr ⟨heq, ?_⟩
+          have : s'.a ≠ s.hi := fun e => hbr ⟨heq, e⟩
+          omega
+      · have hss' := hle.1 s' (List.mem_cons_of_mem _ hs')
+        have hhs' := (List.pairwise_cons.mp hle.2).1 s' hs'
+        rcases hss' with hlt | ⟨heq, hhi⟩
+        · exact Or.inl hlt
+        · refine Or.inr ⟨heq, ?_⟩
+          have hha : h.a < h.hi := by simp [ATgt.hi]; omega
+          rcases hsh with h1 | ⟨h1, h1'⟩ <;> rcases hhs' with h2 | ⟨h2, h2'⟩ <;> omega
+
+/-- the ascending target a segment stands for -/
+def Seg.toATgt (s : Seg) : ATgt := ⟨s.blk, .sl s.sl, s.run.headD 0, s.run.length - 1⟩
+
+theorem Seg.toATgt_of_asc (s : Seg) (hg : s.Good) (a len : Nat) (hr : s.run = List.range' a (len + 1)) :
+    s.toATgt = ⟨s.blk, .sl s.sl, a, len⟩ ∧ s.toATgt.sel.range = some (a, a + len + 1) ∧
+    s.toATgt.cells = s.cells ∧ s.toATgt.pair = s.pair := by
+  have h1 : s.toATgt = ⟨s.blk, .sl s.sl, a, len⟩ := by
+    simp [Seg.toATgt, hr, List.range'_succ]
+  have hsl := hg.2
+  rw [hr, colsToSlice_asc] at hsl
+  simp only [Option.some.injEq] at hsl
+  refine ⟨h1, ?_, ?_, ?_⟩
+  · rw [h1, ← hsl]
+    simp only [BSel.range]
+    rw [if_pos (by omega)]
+    congr 2
+  · rw [h1]; simp [ATgt.cells, Seg.cells, hr]
+  · rw [h1]; rfl
+
+theorem achain_map (segs : List Seg) (hch : ChainBreaks segs)
+    (h : ∀ s1 ∈ segs, ∀ s2 ∈ segs, s1.Breaks s2 → ABreaks s1.toATgt s2.toATgt) :
+    AChain (segs.map Seg.toATgt) := by
+  induction segs with
+  | nil => trivial
+  | cons s rest ih =>
+    cases rest with
+    | nil => trivial
+    | cons s2 tl =>
+      refine ⟨h s List.mem_cons_self s2 (List.mem_cons_of_mem _ List.mem_cons_self) hch.1, ?_⟩
+      exact ih hch.2 (fun a ha b hb => h a (List.mem_cons_of_mem _ ha) b (List.mem_cons_of_mem _ hb))
+
+theorem TB.contiguous_atgts (tb : TB α) (cps : List Nat) (hs : cps.Pairwise (· < ·)) :
+    ∃ atgts : List ATgt, contiguousPairs (pick tb.index cps) none [] = some (atgts.map ATgt.pair) ∧
+      (∀ t ∈ atgts, t.sel.range = some (t.a, t.hi) ∧ ∃ b, tb.blocks[t.blk]? = some b ∧ t.hi ≤ b.width) ∧
+      atgts.Pairwise ALt ∧ atgts.flatMap ATgt.cells = pick tb.index cps := by
+  have hsorted := tb.pick_index_sorted hs
+  have hnd : (pick tb.index cps).Nodup := hsorted.imp lexLt_ne
+  obtain ⟨ps, hps⟩ := contiguousPairs_total (pick tb.index cps) []
+  obtain ⟨segs, rfl, hflat, hgood, hchain⟩ := contiguousPairs_struct _ [] ps hps hnd
+  rw [← hflat, List.pairwise_flatMap] at hsorted
+  obtain ⟨hin, hcross⟩ := hsorted
+  -- every run is an interval
+  have hasc : ∀ s ∈ segs, ∃ a len, s.run = List.range' a (len + 1) := by
+    intro s hs
+    apply monoRun_asc (hgood s hs).1
+    have := hin s hs
+    rw [Seg.cells, List.pairwise_map] at this
+    refine this.imp (fun h => ?_)
+    rcases h with h | ⟨_, h⟩
+    · exact absurd h (Nat.lt_irrefl _)
+    · exact h
+  refine ⟨segs.map Seg.toATgt, ?_, ?_, ?_, ?_⟩
+  · rw [hps, List.map_map]
+    rfl
+  · intro t ht
+    obtain ⟨s, hs, rfl⟩ := List.mem_map.mp ht
+    obtain ⟨a, len, hr⟩ := hasc s hs
+    obtain ⟨h1, h2, _, _⟩ := s.toATgt_of_asc (hgood s hs) a len hr
+    have hmem : (s.blk, a + len) ∈ tb.index := by
+      apply mem_pick (ps := cps)
+      rw [← hflat, List.mem_flatMap]
+      refine ⟨s, hs, ?_⟩
+      rw [Seg.cells, hr]
+      exact List.mem_map.mpr ⟨a + len, by rw [List.mem_range'_1]; omega, rfl⟩
+    obtain ⟨b, hb, hw⟩ := mem_index hmem
+    refine ⟨?_, b, ?_, ?_⟩
+    · rw [h2, h1]; rfl
+    · rw [h1]; exact hb
+    · rw [h1]; simp only [ATgt.hi]; simp only at hw; omega
+  · apply pairwise_alt_of_chain
+    · rw [List.pairwise_map]
+      apply List.Pairwise.imp_of_mem _ hcross
+      intro s1 s2 hs1 hs2 hx
+      obtain ⟨a1, len1, hr1⟩ := hasc s1 hs1
+      obtain ⟨a2, len2, hr2⟩ := hasc s2 hs2
+      rw [(s1.toATgt_of_asc (hgood s1 hs1) a1 len1 hr1).1, (s2.toATgt_of_asc (hgood s2 hs2) a2 len2 hr2).1]
+      have := hx (s1.blk, a1 + len1)
+        (by rw [Seg.cells, hr1]; exact List.mem_map.mpr ⟨a1 + len1, by rw [List.mem_range'_1]; omega, rfl⟩)
+        (s2.blk, a2)
+        (by rw [Seg.cells, hr2]; exact List.mem_map.mpr ⟨a2, by rw [List.mem_range'_1]; omega, rfl⟩)
+      rcases this with h | ⟨h, h'⟩
+      · exact Or.inl h
+      · exact Or.inr ⟨h, by simp only [ATgt.hi]; simp only at h'; omega⟩
+    · apply achain_map segs hchain
+      intro s1 hs1 s2 hs2 hbr
+      obtain ⟨a1, len1, hr1⟩ := hasc s1 hs1
+      obtain ⟨a2, len2, hr2⟩ := hasc s2 hs2
+      rw [(s1.toATgt_of_asc (hgood s1 hs1) a1 len1 hr1).1, (s2.toATgt_of_asc (hgood s2 hs2) a2 len2 hr2).1]
+      intro ⟨hb, ha⟩
+      apply hbr
+      refine ⟨hb, a1 + len1, a2, ?_, ?_, Or.inl ?_⟩
+      · rw [hr1, List.getLast?_range']; simp
+      · rw [hr2, List.head?_range']; simp
+      · simp only [ATgt.hi] at ha; omega
+  · rw [← hflat, List.flatMap_map]
+    apply flatMap_congr'
+    intro s hs
+    obtain ⟨a, len, hr⟩ := hasc s hs
+    exact (s.toATgt_of_asc (hgood s hs) a len hr).2.2.1
+
+theorem ATgt.mem_cells (t : ATgt) (p : Nat × Nat) :
+    p ∈ t.cells ↔ t.blk = p.1 ∧ t.a ≤ p.2 ∧ p.2 < t.hi := by
+  simp only [ATgt.cells, List.mem_map, List.mem_range'_1, ATgt.hi]
+  constructor
+  · rintro ⟨c, hc, rfl⟩; exact ⟨rfl, hc.1, by simp only; omega⟩
+  · rintro ⟨h1, h2, h3⟩
+    exact ⟨p.2, ⟨h2, by omega⟩, by rw [h1]⟩
+
+theorem mem_pick_iff {β} {l : List β} {ps : List Nat} {x : β} :
+    x ∈ pick l ps ↔ ∃ j ∈ ps, l[j]? = some x := by
+  simp [pick, List.mem_filterMap]
+
+/-- coverage of the targets in terms of the selected column positions -/
+theorem atgts_cover (tb : TB α) (atgts : List ATgt) (cps cps' : List Nat)
+    (hcells : atgts.flatMap ATgt.cells = pick tb.index cps') (hperm : ∀ j, j ∈ cps' ↔ j ∈ cps)
+    (p : Nat × Nat) :
+    (∃ t ∈ atgts, t.blk = p.1 ∧ t.a ≤ p.2 ∧ p.2 < t.hi) ↔ ∃ j ∈ cps, tb.index[j]? = some p := by
+  have h1 : (∃ t ∈ atgts, t.blk = p.1 ∧ t.a ≤ p.2 ∧ p.2 < t.hi) ↔ p ∈ atgts.flatMap ATgt.cells := by
+    rw [List.mem_flatMap]
+    constructor
+    · rintro ⟨t, ht, h⟩; exact ⟨t, ht, (t.mem_cells p).mpr h⟩
+    · rintro ⟨t, ht, h⟩; exact ⟨t, ht, (t.mem_cells p).mp h⟩
+  rw [h1, hcells, mem_pick_iff]
+  constructor
+  · rintro ⟨j, hj, h⟩; exact ⟨j, (hperm j).mp hj, h⟩
+  · rintro ⟨j, hj, h⟩; exact ⟨j, (hperm j).mpr hj, h⟩
+
+/-- removing duplicates from a sorted list leaves it strictly sorted -/
+theorem eraseDups_sorted (n : Nat) (l : List Nat) (hlen : l.length ≤ n)
+    (hs : l.Pairwise (· ≤ ·)) : l.eraseDups.Pairwise (· < ·) := by
+  induction n generalizing l with
+  | zero =>
+    have : l = [] := List.eq_nil_of_length_eq_zero (by omega)
+    subst this; simp
+  | succ n ih =>
+    cases l with
+    | nil => simp
+    | cons a as =>
+      rw [List.eraseDups_cons, List.pairwise_cons]
+      rw [List.pairwise_cons] at hs
+      refine ⟨?_, ?_⟩
+      · intro x hx
+        rw [List.mem_eraseDups, List.mem_filter] at hx
+        have h1 := hs.1 x hx.1
+        have h2 : x ≠ a := by simpa using hx.2
+        omega
+      · apply ih
+        · have := List.length_filter_le (fun b => !b == a) as
+          simp only [List.length_cons] at hlen
+          omega
+        · exact hs.2.sublist List.filter_sublist
+
+/-- `sorted(set(...))`: strictly ascending, same members (repeats allowed in the key) -/
+theorem sortNat_eraseDups_spec (l : List Nat) :
+    ((sortNat l).eraseDups).Pairwise (· < ·) ∧ ∀ j, j ∈ (sortNat l).eraseDups ↔ j ∈ l := by
+  have hperm : (sortNat l).Perm l := List.mergeSort_perm l _
+  have hs : (sortNat l).Pairwise (fun a b => decide (a ≤ b) = true) :=
+    List.pairwise_mergeSort (le := fun a b => decide (a ≤ b))
+      (by intro a b c h1 h2; simp at *; omega) (by intro a b; simp; omega) l
+  refine ⟨eraseDups_sorted _ _ (Nat.le_refl _) (hs.imp (fun h => by simpa using h)), fun j => ?_⟩
+  rw [List.mem_eraseDups]
+  exact hperm.mem_iff
+
+/-- what the walkers need to know about the targets of a key -/
+structure KeyATgts (tb : TB α) (pairs : List (Nat × BSel)) (cps : List Nat) (atgts : List ATgt) : Prop where
+  pairs_eq : pairs = atgts.map ATgt.pair
+  ok : ∀ t ∈ atgts, t.sel.range = some (t.a, t.hi) ∧ ∃ b, tb.blocks[t.blk]? = some b ∧ t.hi ≤ b.width
+  sorted : atgts.Pairwise ALt
+  cover : ∀ p : Nat × Nat,
+    (∃ t ∈ atgts, t.blk = p.1 ∧ t.a ≤ p.2 ∧ p.2 < t.hi) ↔ ∃ j ∈ cps, tb.index[j]? = some p
+
+theorem allSel_range (b : Block α) (hw : 0 < b.width) : (allSel b).range = some (0, 0 + (b.width - 1) + 1) := by
+  cases b with
+  | d1 t c => rfl
+  | d2 t cs =>
+    simp only [Block.width] at hw
+    simp only [allSel, BSel.range, Block.width]
+    rw [if_pos (by omega)]
+    congr 2
+    simp; omega
+
+theorem TB.all_atgts (tb : TB α) (hwf : tb.WF) :
+    ∃ atgts, KeyATgts tb (allBlockSlices tb) (List.range tb.ncols) atgts := by
+  let conv : Block α × Nat → ATgt := fun x => ⟨x.2, allSel x.1, 0, x.1.width - 1⟩
+  have hmem : ∀ x ∈ tb.blocks.zipIdx, tb.blocks[x.2]? = some x.1 ∧ 0 < x.1.width := by
+    intro x hx
+    obtain ⟨b, i⟩ := x
+    have := (mem_zipIdx_getElem? hx).2
+    simp only [Nat.sub_zero] at this
+    exact ⟨this, hwf.1 b (List.mem_of_getElem? this)⟩
+  have hcells : (tb.blocks.zipIdx.map conv).flatMap ATgt.cells = tb.index := by
+    rw [index, indexFrom_eq_flatMap, List.flatMap_map]
+    apply flatMap_congr'
+    intro x hx
+    have hw := (hmem x hx).2
+    simp only [ATgt.cells, conv, List.range_eq_range']
+    congr 2
+    omega
+  refine ⟨tb.blocks.zipIdx.map conv, ?_, ?_, ?_, ?_⟩
+  · simp only [allBlockSlices, List.map_map]
+    apply List.map_congr_left
+    intro x _
+    obtain ⟨b, i⟩ := x
+    cases b <;> rfl
+  · intro t ht
+    obtain ⟨x, hx, rfl⟩ := List.mem_map.mp ht
+    obtain ⟨h1, h2⟩ := hmem x hx
+    refine ⟨allSel_range x.1 h2, x.1, h1, ?_⟩
+    simp only [ATgt.hi, conv]; omega
+  · rw [List.pairwise_map, List.pairwise_iff_getElem]
+    intro i j hi hj hij
+    left
+    simp only [conv, List.getElem_zipIdx]
+    omega
+  · intro p
+    apply atgts_cover tb _ _ (List.range tb.ncols) _ (fun _ => Iff.rfl)
+    rw [hcells, ← index_length, pick_range]
+
+theorem TB.int_atgts (tb : TB α) (i : Int) (cps : List Nat)
+    (hck : (Key.int i).positions tb.ncols = .ok cps) :
+    ∃ pairs atgts, keyToBlockSlices tb (.int i) false = .ok pairs ∧ KeyATgts tb pairs cps atgts := by
+  obtain ⟨p, rfl, hp, _⟩ := C04.int_position hck
+  have hnp : normPos i tb.index.length = .ok p := by
+    rw [index_length]
+    simp only [Key.positions] at hck
+    cases hn : normPos i tb.ncols with
+    | error e => rw [hn] at hck; cases hck
+    | ok q => rw [hn] at hck; simp [Except.map] at hck; rw [hck]
+  have hpl : p < tb.index.length := by rw [index_length]; exact hp
+  obtain ⟨blk, hblk, hlt⟩ := mem_index (List.getElem_mem hpl)
+  refine ⟨[(tb.index[p].1, BSel.col tb.index[p].2)], [⟨tb.index[p].1, .col tb.index[p].2, tb.index[p].2, 0⟩], ?_, ?_, ?_, ?_, ?_⟩
+  · simp only [keyToBlockSlices, hnp, List.getElem?_eq_getElem hpl]
+  · rfl
+  · intro t ht
+    simp only [List.mem_singleton] at ht; subst ht
+    exact ⟨rfl, blk, hblk, by simp only [ATgt.hi]; omega⟩
+  · simp
+  · intro q
+    apply atgts_cover tb _ _ [p] _ (fun _ => Iff.rfl)
+    simp [ATgt.cells, pick, List.getElem?_eq_getElem hpl, List.range'_succ]
+
+
+theorem TB.sorted_atgts (tb : TB α) (cps cps' : List Nat) (hs : cps'.Pairwise (· < ·))
+    (hperm : ∀ j, j ∈ cps' ↔ j ∈ cps) :
+    ∃ pairs atgts, contiguousPairs (pick tb.index cps') none [] = some pairs ∧ KeyATgts tb pairs cps atgts := by
+  obtain ⟨atgts, h1, h2, h3, h4⟩ := tb.contiguous_atgts cps' hs
+  exact ⟨_, atgts, h1, rfl, h2, h3, fun p => atgts_cover tb atgts cps cps' h4 hperm p⟩
+
+theorem slice_positions_sorted {s : PySlice} {n : Nat} {ps : List Nat} (h : s.positions n = .ok ps)
+    (hstep : s.step = none ∨ ∃ st, s.step = some st ∧ 0 < st) : ps.Pairwise (· < ·) := by
+  cases hi : s.indices n with
+  | error e => simp [PySlice.positions, hi] at h
+  | ok v =>
+    obtain ⟨a, b, c⟩ := v
+    have hc : 0 < c := by
+      unfold PySlice.indices at hi
+      simp only at hi
+      split at hi
+      · cases hi
+      · simp only [Except.ok.injEq, Prod.mk.injEq] at hi
+        rw [← hi.2.2]
+        rcases hstep with h0 | ⟨st, h0, h1⟩ <;> simp [h0]
+        exact h1
+    exact (C04.slice_positions_strict h hi).1 hc
+
+/-- the targets `_key_to_block_slices(key, retain_key_order=False)` yields for an ascending-safe key -/
+theorem TB.key_atgts (tb : TB α) (hwf : tb.WF) (ck : Key) (cps : List Nat)
+    (hsafe : ∀ s, ck = .slice s → s.step = none ∨ ∃ st, s.step = some st ∧ 0 < st)
+    (hck : ck.positions tb.ncols = .ok cps) :
+    ∃ pairs atgts, keyToBlockSlices tb ck false = .ok pairs ∧ KeyATgts tb pairs cps atgts := by
+  cases ck with
+  | all =>
+    simp only [Key.positions, Except.ok.injEq] at hck
+    subst hck
+    obtain ⟨atgts, h⟩ := tb.all_atgts hwf
+    exact ⟨_, atgts, rfl, h⟩
+  | int i => exact tb.int_atgts i cps hck
+  | slice s =>
+    have hstep := hsafe s rfl
+    have hpos : s.positions tb.ncols = .ok cps := hck
+    obtain ⟨pairs, atgts, h1, h2⟩ := tb.sorted_atgts cps cps (slice_positions_sorted hpos hstep) (fun _ => Iff.rfl)
+    refine ⟨pairs, atgts, ?_, h2⟩
+    have hasc : sliceToAscending s (tb.ncols : Int) = some s := by
+      rcases hstep with h0 | ⟨st, h0, hst⟩
+      · simp [sliceToAscending, h0]
+      · simp [sliceToAscending, h0, hst]
+    simp only [keyToBlockSlices, Bool.false_eq_true, if_false, hasc, pyListSlice, index_length, hpos, h1]
+  | mask bs =>
+    obtain ⟨hlen, _, hsorted⟩ := C04.mask_positions hck
+    simp only [Key.positions] at hck
+    rw [if_pos hlen] at hck
+    simp only [Except.ok.injEq] at hck
+    subst hck
+    obtain ⟨pairs, atgts, h1, h2⟩ := tb.sorted_atgts _ _ hsorted (fun _ => Iff.rfl)
+    refine ⟨pairs, atgts, ?_, h2⟩
+    have : ¬ (bs.length > tb.index.length ∧ (bs.drop tb.index.length).any id = true) := by
+      rw [index_length]; omega
+    simp only [keyToBlockSlices, if_neg this, h1]
+  | list is =>
+    obtain ⟨hs1, hs2⟩ := sortNat_eraseDups_spec cps
+    obtain ⟨pairs, atgts, h1, h2⟩ := tb.sorted_atgts cps (sortNat cps).eraseDups hs1 hs2
+    refine ⟨pairs, atgts, ?_, h2⟩
+    simp only [Key.positions] at hck
+    simp only [keyToBlockSlices, index_length, hck, Bool.false_eq_true, if_false, h1]
+
+theorem colsDT_length (bs : List (Block α)) : (colsDT bs).length = (bs.map Block.width).sum := by
+  induction bs with
+  | nil => rfl
+  | cons b rest ih => simp [Block.colsDT, ih]
+
+theorem mapSpec_eq_zipWith (cov : Nat × Nat → Bool) (hh : DT × List α → DT × List α) (bi : Nat)
+    (bs : List (Block α)) :
+    mapSpec cov hh bi bs = List.zipWith (fun p x => if cov p then hh x else x) (indexFrom bi bs) (colsDT bs) := by
+  induction bs generalizing bi with
+  | nil => rfl
+  | cons b rest ih =>
+    simp only [mapSpec, indexFrom, colsDT_cons]
+    rw [List.zipWith_append (by simp [Block.colsDT]), ih, Block.colsDT_eq_range, List.zipWith_map]
+    congr 1
+    apply List.ext_getElem
+    · simp
+    · intro i h1 h2; simp
+
+/-- the covered cells of a key, as a Boolean predicate on directory entries -/
+def TB.covOf (tb : TB α) (cps : List Nat) (p : Nat × Nat) : Bool :=
+  cps.any (fun j => tb.index[j]? == some p)
+
+theorem TB.covOf_iff (tb : TB α) (cps : List Nat) (p : Nat × Nat) :
+    tb.covOf cps p = true ↔ ∃ j ∈ cps, tb.index[j]? = some p := by
+  simp [TB.covOf, List.any_eq_true]
+
+theorem TB.covOf_index (tb : TB α) (cps : List Nat) (j : Nat) (p : Nat × Nat) (h : tb.index[j]? = some p) :
+    tb.covOf cps p = true ↔ j ∈ cps := by
+  rw [covOf_iff]
+  constructor
+  · rintro ⟨j', hj', h'⟩
+    rw [tb.index_inj h h']; exact hj'
+  · intro hj; exact ⟨j, hj, h⟩
+
+theorem TB.mapSpec_eq_mapIdx (tb : TB α) (cps : List Nat) (hh : DT × List α → DT × List α) :
+    mapSpec (tb.covOf cps) hh 0 tb.blocks
+      = (colsDT tb.blocks).mapIdx (fun j x => if j ∈ cps then hh x else x) := by
+  rw [mapSpec_eq_zipWith]
+  apply List.ext_getElem?
+  intro j
+  rw [List.getElem?_zipWith, List.getElem?_mapIdx]
+  have hlen : (indexFrom 0 tb.blocks).length = (colsDT tb.blocks).length := by
+    rw [indexFrom_length, colsDT_length]
+  by_cases hj : j < (colsDT tb.blocks).length
+  · have hj' : j < (indexFrom 0 tb.blocks).length := by omega
+    rw [List.getElem?_eq_getElem hj, List.getElem?_eq_getElem hj']
+    simp only [Option.map_some]
+    have : tb.covOf cps (indexFrom 0 tb.blocks)[j] = true ↔ j ∈ cps :=
+      tb.covOf_index cps j _ (List.getElem?_eq_getElem (l := tb.index) hj')
+    by_cases hc : j ∈ cps
+    · rw [if_pos hc, if_pos (this.mpr hc)]
+    · rw [if_neg hc, if_neg (fun h => hc (this.mp h))]
+  · rw [List.getElem?_eq_none (by omega), List.getElem?_eq_none (l := colsDT tb.blocks) (by omega)]
+    rfl
+
+theorem TB.mapBlocks_refines (tb : TB α) (hwf : tb.WF) (ck : Key) (cps : List Nat)
+    (hsafe : ∀ s, ck = .slice s → s.step = none ∨ ∃ st, s.step = some st ∧ 0 < st)
+    (hck : ck.positions tb.ncols = .ok cps)
+    {f : Block α → Block α} {fd fc} (hf : ColFn f fd fc) (skip : Block α → Bool)
+    (skipT : DT → Bool) (hskip : ∀ b, skip b = skipT b.dt) :
+    ∃ pairs out, keyToBlockSlices tb ck false = .ok pairs ∧
+      mapBlocksGo f skip 0 tb.blocks pairs = some out ∧
+      colsDT out = (colsDT tb.blocks).mapIdx
+        (fun j x => if j ∈ cps then (if skipT x.1 then x else (fd x.1, fc x.2)) else x) := by
+  obtain ⟨pairs, atgts, hk, ⟨rfl, hok, hsorted, hcover⟩⟩ := tb.key_atgts hwf ck cps hsafe hck
+  obtain ⟨out, hout, hspec⟩ := mapBlocksGo_spec hf skip skipT hskip (tb.covOf cps) 0 tb.blocks atgts
+    (fun t ht => by
+      obtain ⟨h1, b, h2, h3⟩ := hok t ht
+      exact ⟨h1, Nat.zero_le _, b, by simpa using h2, h3⟩)
+    hsorted
+    (fun p _ => by rw [tb.covOf_iff, hcover p])
+  refine ⟨_, out, hk, hout, ?_⟩
+  rw [hspec, tb.mapSpec_eq_mapIdx]
+
+theorem ColFn.unique {f f' : Block α → Block α} {fd fc} (h : ColFn f fd fc) (h' : ColFn f' fd fc) :
+    f = f' := by
+  funext b
+  cases b with
+  | d1 t c => rw [h.d1, h'.d1]
+  | d2 t cs => rw [h.d2, h'.d2]
+
+/-- the same walk with any other presentation of the same column-wise function -/
+theorem mapBlocksGo_congr {f f' : Block α → Block α} {fd fc} (h : ColFn f fd fc) (h' : ColFn f' fd fc)
+    {skip : Block α → Bool} {bs : List (Block α)} {pairs : List (Nat × BSel)} {o o' : Option (List (Block α))}
+    (h1 : mapBlocksGo f skip 0 bs pairs = o) (h2 : mapBlocksGo f' skip 0 bs pairs = o') : o' = o := by
+  rw [← h1, ← h2, h.unique h']
+
+theorem TB.cols_eq_colsDT (tb : TB α) : tb.cols = (colsDT tb.blocks).map Prod.snd := (colsDT_snd _).symm
+theorem TB.dtypes_eq_colsDT (tb : TB α) : tb.dtypes = (colsDT tb.blocks).map Prod.fst := (colsDT_fst _).symm
+
+theorem filter_range'_all_false (p : Nat → Bool) (a n : Nat) (h : ∀ c, a ≤ c → c < a + n → p c = false) :
+    (List.range' a n).filter p = [] := by
+  rw [List.filter_eq_nil_iff]
+  intro c hc
+  rw [List.mem_range'_1] at hc
+  simp [h c hc.1 hc.2]
+
+theorem filter_range'_all_true (p : Nat → Bool) (a n : Nat) (h : ∀ c, a ≤ c → c < a + n → p c = true) :
+    (List.range' a n).filter p = List.range' a n := by
+  rw [List.filter_eq_self]
+  intro c hc
+  rw [List.mem_range'_1] at hc
+  exact h c hc.1 hc.2
+
+theorem dropWalk_spec (t : DT) (cs : List (List α)) (bi : Nat) (cov : Nat → Bool)
+    (pre post : List ATgt) (ps : Nat) (parts : List (Block α)) (dropAll : Bool)
+    (hpre : ∀ p ∈ pre, p.blk = bi ∧ p.sel.range = some (p.a, p.hi) ∧ p.hi ≤ cs.length)
+    (hsorted : pre.Pairwise ALt) (hps : ∀ p ∈ pre, ps < p.a) (hpsl : ps ≤ cs.length)
+    (hpost : ∀ q, post.head? = some q → q.blk ≠ bi)
+    (hcov : ∀ c, ps ≤ c → (cov c = true ↔ ∃ p ∈ pre, p.a ≤ c ∧ c < p.hi)) :
+    ∃ parts' ps', dropWalk t cs bi ((pre ++ post).map ATgt.pair) ps parts dropAll
+        = some (parts ++ parts', dropAll, ps', post.map ATgt.pair) ∧
+      ps ≤ ps' ∧ ps' ≤ cs.length ∧ (∀ p ∈ pre, p.hi ≤ ps') ∧
+      (pre ≠ [] → parts' ≠ []) ∧ (pre = [] → ps' = ps ∧ parts' = []) ∧
+      colsDT parts' = ((List.range' ps (ps' - ps)).filter (fun c => !cov c)).map
+        (fun c => (t, cs.getD c [])) := by
+  induction pre generalizing ps parts with
+  | nil =>
+    refine ⟨[], ps, ?_, Nat.le_refl _, hpsl, by simp, by simp, by simp, by simp⟩
+    cases post with
+    | nil => simp [dropWalk]
+    | cons q post' =>
+      have hq := hpost q rfl
+      simp only [List.nil_append, List.map_cons, dropWalk, ATgt.pair, ne_eq, hq, not_false_eq_true,
+        if_true, List.append_nil]
+  | cons p pre' ih =>
+    obtain ⟨hblk, hrange, hhi⟩ := hpre p List.mem_cons_self
+    have hpa := hps p List.mem_cons_self
+    rw [List.pairwise_cons] at hsorted
+    obtain ⟨hp_lt, hsorted'⟩ := hsorted
+    have hahi : p.a < p.hi := by simp [ATgt.hi]; omega
+    have hnext : ∀ p' ∈ pre', p.hi < p'.a := by
+      intro p' hp'
+      have hb' := (hpre p' (List.mem_cons_of_mem _ hp')).1
+      rcases hp_lt p' hp' with h | ⟨_, h⟩
+      · omega
+      · exact h
+    obtain ⟨parts'', ps', hw, h1, h2, h3, _, _, h4⟩ := ih p.hi (parts ++ [Block.d2 t (subCols cs ps p.a)])
+      (fun q hq => hpre q (List.mem_cons_of_mem _ hq)) hsorted'
+      (fun q hq => hnext q hq) hhi
+      (by
+        intro c hc
+        rw [hcov c (by omega)]
+        constructor
+        · rintro ⟨q, hq, hq1, hq2⟩
+          rw [List.mem_cons] at hq
+          rcases hq with rfl | hq
+          · omega
+          · exact ⟨q, hq, hq1, hq2⟩
+        · rintro ⟨q, hq, hq1, hq2⟩
+          exact ⟨q, List.mem_cons_of_mem _ hq, hq1, hq2⟩)
+    have hgapcov : ∀ c, ps ≤ c → c < p.a → cov c = false := by
+      intro c hc1 hc2
+      cases hcv : cov c with
+      | false => rfl
+      | true =>
+        obtain ⟨q, hq, hq1, hq2⟩ := (hcov c hc1).mp hcv
+        rw [List.mem_cons] at hq
+        rcases hq with rfl | hq
+        · omega
+        · have := hnext q hq; omega
+    have htcov : ∀ c, p.a ≤ c → c < p.hi → cov c = true := by
+      intro c hc1 hc2
+      exact (hcov c (by omega)).mpr ⟨p, List.mem_cons_self, hc1, hc2⟩
+    refine ⟨[Block.d2 t (subCols cs ps p.a)] ++ parts'', ps', ?_, by omega, h2, ?_, by simp, by simp, ?_⟩
+    · have hnot : ¬ (p.a = 0 ∧ p.hi = cs.length) := by omega
+      simp only [List.cons_append, List.map_cons, dropWalk, ATgt.pair, hblk, ne_eq, not_true_eq_false,
+        if_false, hrange, hnot, gt_iff_lt, hpa, if_true]
+      show dropWalk t cs bi ((pre' ++ post).map ATgt.pair) p.hi _ dropAll = _
+      rw [hw]
+      simp
+    · intro q hq
+      rw [List.mem_cons] at hq
+      rcases hq with rfl | hq
+      · exact h1
+      · exact h3 q hq
+    · rw [colsDT_append, h4, range'_split3 ps p.a p.hi ps' (Nat.le_of_lt hpa) (Nat.le_of_lt hahi) h1,
+        List.filter_append, List.filter_append, List.map_append, List.map_append]
+      rw [filter_range'_all_true _ ps (p.a - ps) (fun c h1 h2 => by simp [hgapcov c h1 (by omega)]),
+        filter_range'_all_false _ p.a (p.hi - p.a) (fun c h1 h2 => by simp [htcov c h1 (by omega)])]
+      simp only [List.map_nil, List.nil_append, colsDT_cons, colsDT_nil, List.append_nil,
+        colsDT_d2_subCols t cs ps p.a (by omega)]
+
+/-- `dropWalk` from the start of a 2-D block whose first target does not cover the whole block -/
+theorem dropWalk_top (t : DT) (cs : List (List α)) (bi : Nat) (cov : Nat → Bool)
+    (p : ATgt) (pre' post : List ATgt)
+    (hpre : ∀ q ∈ p :: pre', q.blk = bi ∧ q.sel.range = some (q.a, q.hi) ∧ q.hi ≤ cs.length)
+    (hsorted : (p :: pre').Pairwise ALt)
+    (hpost : ∀ q, post.head? = some q → q.blk ≠ bi)
+    (hcov : ∀ c, (cov c = true ↔ ∃ q ∈ p :: pre', q.a ≤ c ∧ c < q.hi))
+    (hnot : ¬ (p.a = 0 ∧ p.hi = cs.length)) :
+    ∃ parts' ps', dropWalk t cs bi (((p :: pre') ++ post).map ATgt.pair) 0 [] false
+        = some (parts', false, ps', post.map ATgt.pair) ∧
+      0 < ps' ∧ ps' ≤ cs.length ∧ (∀ q ∈ p :: pre', q.hi ≤ ps') ∧ (parts' = [] → ps' < cs.length) ∧
+      colsDT parts' = ((List.range' 0 ps').filter (fun c => !cov c)).map (fun c => (t, cs.getD c [])) := by
+  obtain ⟨hblk, hrange, hhi⟩ := hpre p List.mem_cons_self
+  have hahi : p.a < p.hi := by simp [ATgt.hi]; omega
+  by_cases ha0 : p.a = 0
+  · -- the first target starts at column 0 and ends before the end of the block
+    have hhilt : p.hi < cs.length := by omega
+    have hs := hsorted
+    rw [List.pairwise_cons] at hs
+    obtain ⟨hp_lt, hsorted'⟩ := hs
+    have hnext : ∀ p' ∈ pre', p.hi < p'.a := by
+      intro p' hp'
+      have hb' := (hpre p' (List.mem_cons_of_mem _ hp')).1
+      rcases hp_lt p' hp' with h | ⟨_, h⟩
+      · omega
+      · exact h
+    obtain ⟨parts', ps', hw, h1, h2, h3, h5, h6, h4⟩ := dropWalk_spec t cs bi cov pre' post p.hi [] false
+      (fun q hq => hpre q (List.mem_cons_of_mem _ hq)) hsorted' hnext hhi hpost
+      (by
+        intro c hc
+        rw [hcov c]
+        constructor
+        · rintro ⟨q, hq, hq1, hq2⟩
+          rw [List.mem_cons] at hq
+          rcases hq with rfl | hq
+          · omega
+          · exact ⟨q, hq, hq1, hq2⟩
+        · rintro ⟨q, hq, hq1, hq2⟩
+          exact ⟨q, List.mem_cons_of_mem _ hq, hq1, hq2⟩)
+    simp only [List.nil_append] at hw
+    refine ⟨parts', ps', ?_, by omega, h2, ?_, ?_, ?_⟩
+    · have hgt : ¬ (p.a > 0) := by omega
+      simp only [List.cons_append, List.map_cons, dropWalk, ATgt.pair, hblk, ne_eq, not_true_eq_false,
+        if_false, hrange, hnot, hgt]
+      exact hw
+    · intro q hq
+      rw [List.mem_cons] at hq
+      rcases hq with rfl | hq
+      · exact h1
+      · exact h3 q hq
+    · intro hnil
+      by_cases hp : pre' = []
+      · rw [(h6 hp).1]; exact hhilt
+      · exact absurd hnil (h5 hp)
+    · rw [h4]
+      have hsplit : List.range' 0 ps' = List.range' 0 p.hi ++ List.range' p.hi (ps' - p.hi) := by
+        have : ps' = p.hi + (ps' - p.hi) := by omega
+        conv => lhs; rw [this]
+        rw [← List.range'_append_1]; simp
+      rw [hsplit, List.filter_append,
+        filter_range'_all_false _ 0 p.hi (fun c _ h2 => by
+          have : cov c = true := (hcov c).mpr ⟨p, List.mem_cons_self, by omega, by omega⟩
+          simp [this])]
+      rfl
+  · have hps : ∀ q ∈ p :: pre', 0 < q.a := by
+      intro q hq
+      rw [List.mem_cons] at hq
+      rcases hq with rfl | hq
+      · omega
+      · have hb' := (hpre q (List.mem_cons_of_mem _ hq)).1
+        rcases (List.pairwise_cons.mp hsorted).1 q hq with h | ⟨_, h⟩
+        · omega
+        · omega
+    obtain ⟨parts', ps', hw, _, h2, h3, h5, _, h4⟩ := dropWalk_spec t cs bi cov (p :: pre') post 0 [] false
+      hpre hsorted hps (Nat.zero_le _) hpost (fun c _ => hcov c)
+    simp only [List.nil_append] at hw
+    have hps' : 0 < ps' := by have := h3 p List.mem_cons_self; omega
+    refine ⟨parts', ps', hw, hps', h2, h3, fun hnil => absurd hnil (h5 (by simp)), ?_⟩
+    rw [h4, Nat.sub_zero]
+
+/-- the expected `(dtype, column)` list after dropping the covered cells -/
+def dropSpec (cov : Nat × Nat → Bool) (del : List α → List α) : Nat → List (Block α) → List (DT × List α)
+  | _, [] => []
+  | bi, b :: rest =>
+    ((List.range b.width).filter (fun c => !cov (bi, c))).map (fun c => (b.dt, del (b.colsOf.getD c []))) ++
+    dropSpec cov del (bi + 1) rest
+
+theorem Block.colsDT_rowDelete (rdel : Option (List Nat)) (b : Block α) :
+    (rowDelete rdel b).colsDT = b.colsDT.map (fun x => (x.1, delRows rdel x.2)) := by
+  obtain ⟨h1, h2, _⟩ := rowDelete_spec rdel b
+  simp [Block.colsDT, h1, h2, List.map_map, Function.comp_def]
+
+theorem colsDT_map_rowDelete (rdel : Option (List Nat)) (parts : List (Block α)) :
+    colsDT (parts.map (rowDelete rdel)) = (colsDT parts).map (fun x => (x.1, delRows rdel x.2)) := by
+  induction parts with
+  | nil => rfl
+  | cons b rest ih => simp [ih, Block.colsDT_rowDelete]
+
+theorem dropBlocksGo_spec (rdel : Option (List Nat)) (cov : Nat × Nat → Bool) (bi : Nat)
+    (bs : List (Block α)) (tgts : List ATgt)
+    (hok : ∀ t ∈ tgts, t.sel.range = some (t.a, t.hi) ∧ bi ≤ t.blk ∧
+      ∃ b, bs[t.blk - bi]? = some b ∧ t.hi ≤ b.width)
+    (hsorted : tgts.Pairwise ALt)
+    (hcov : ∀ p : Nat × Nat, bi ≤ p.1 →
+      (cov p = true ↔ ∃ t ∈ tgts, t.blk = p.1 ∧ t.a ≤ p.2 ∧ p.2 < t.hi)) :
+    ∃ out, dropBlocksGo rdel bi bs (tgts.map ATgt.pair) = some out ∧
+      colsDT out = dropSpec cov (delRows rdel) bi bs := by
+  induction bs generalizing bi tgts with
+  | nil => exact ⟨[], by simp [dropBlocksGo], rfl⟩
+  | cons b rest ih =>
+    obtain ⟨pre, post, rfl, hpre, hpost⟩ := split_targets bi tgts (fun t ht => (hok t ht).2.1) hsorted
+    rw [List.pairwise_append] at hsorted
+    obtain ⟨hspre, hspost, hcross⟩ := hsorted
+    obtain ⟨out', hout', hspec'⟩ := ih (bi + 1) post
+      (by
+        intro t ht
+        obtain ⟨h1, h2, b', h3, h4⟩ := hok t (List.mem_append_right _ ht)
+        have := hpost t ht
+        refine ⟨h1, by omega, b', ?_, h4⟩
+        have e : t.blk - bi = (t.blk - (bi + 1)) + 1 := by omega
+        rw [e, List.getElem?_cons_succ] at h3
+        exact h3)
+      hspost
+      (by
+        intro p hp
+        rw [hcov p (by omega)]
+        constructor
+        · rintro ⟨t, ht, h1, h2⟩
+          rw [List.mem_append] at ht
+          rcases ht with ht | ht
+          · have := hpre t ht; omega
+          · exact ⟨t, ht, h1, h2⟩
+        · rintro ⟨t, ht, h1, h2⟩
+          exact ⟨t, List.mem_append_right _ ht, h1, h2⟩)
+    have hcovb : ∀ c, cov (bi, c) = true ↔ ∃ p ∈ pre, p.a ≤ c ∧ c < p.hi := by
+      intro c
+      rw [hcov (bi, c) (Nat.le_refl _)]
+      constructor
+      · rintro ⟨t, ht, h1, h2⟩
+        rw [List.mem_append] at ht
+        rcases ht with ht | ht
+        · exact ⟨t, ht, h2⟩
+        · have := hpost t ht; simp only at h1; omega
+      · rintro ⟨t, ht, h2⟩
+        exact ⟨t, List.mem_append_left _ ht, hpre t ht, h2⟩
+    have hwidth : ∀ p ∈ pre, p.hi ≤ b.width := by
+      intro p hp
+      obtain ⟨_, _, b', h3, h4⟩ := hok p (List.mem_append_left _ hp)
+      rw [hpre p hp, Nat.sub_self, List.getElem?_cons_zero] at h3
+      cases h3; exact h4
+    have hposthead : ∀ q, post.head? = some q → q.blk ≠ bi := by
+      intro q hq
+      have := hpost q (List.mem_of_mem_head? hq)
+      omega
+    simp only [dropSpec]
+    cases pre with
+    | nil =>
+      have hnc : ∀ c, cov (bi, c) = false := by
+        intro c
+        cases h : cov (bi, c) with
+        | false => rfl
+        | true => obtain ⟨p, hp, _⟩ := (hcovb c).mp h; cases hp
+      refine ⟨rowDelete rdel b :: out', ?_, ?_⟩
+      · cases post with
+        | nil => simp only [List.append_nil, List.map_nil, dropBlocksGo] at hout' ⊢; rw [hout']; rfl
+        | cons q post' =>
+          have hq := hpost q List.mem_cons_self
+          have hne : q.blk ≠ bi := by omega
+          have hne' : ¬ (q.blk = bi ∧ (match b with | .d1 _ _ => true | .d2 _ cs => cs.length == 1) = true) :=
+            fun h => hne h.1
+          simp only [List.nil_append, List.map_cons, dropBlocksGo, ATgt.pair, ne_eq, hne,
+            not_false_eq_true, if_true, hne', if_false, false_and] at hout' ⊢
+          rw [hout']; rfl
+      · rw [colsDT_cons, hspec', Block.colsDT_rowDelete, Block.colsDT_eq_range, List.map_map,
+          List.range_eq_range', filter_range'_all_true]
+        · rfl
+        · intro c _ _; simp [hnc c]
+    | cons t pre' =>
+      have htb : t.blk = bi := hpre t List.mem_cons_self
+      have hthi := hwidth t List.mem_cons_self
+      by_cases hw1 : b.width = 1
+      · -- narrow block: dropped entirely
+        have hpre'nil : pre' = [] := by
+          cases pre' with
+          | nil => rfl
+          | cons p' pre'' =>
+            exfalso
+            rw [List.pairwise_cons] at hspre
+            have h1 := hspre.1 p' List.mem_cons_self
+            have h2 := hwidth p' (List.mem_cons_of_mem _ List.mem_cons_self)
+            have h3 := hpre p' (List.mem_cons_of_mem _ List.mem_cons_self)
+            rcases h1 with h1 | ⟨_, h1⟩
+            · omega
+            · simp only [ATgt.hi] at h1 h2; omega
+        subst hpre'nil
+        refine ⟨out', ?_, ?_⟩
+        · cases b with
+          | d1 dt col =>
+            simp only [List.cons_append, List.nil_append, List.map_cons, dropBlocksGo, ATgt.pair, htb,
+              and_self, if_true]
+            exact hout'
+          | d2 dt cs =>
+            simp only [Block.width] at hw1
+            simp only [List.cons_append, List.nil_append, List.map_cons, dropBlocksGo, ATgt.pair, htb,
+              hw1, BEq.rfl, and_self, if_true]
+            exact hout'
+        · rw [hspec', hw1]
+          have hc0 : cov (bi, 0) = true :=
+            (hcovb 0).mpr ⟨t, List.mem_cons_self, by simp only [ATgt.hi] at hthi; omega, by simp [ATgt.hi]⟩
+          simp [List.range_succ, hc0]
+      · cases b with
+        | d1 dt col => exact absurd rfl hw1
+        | d2 dt cs =>
+          simp only [Block.width] at hw1 hthi hwidth
+          have hnarrow : ¬ (t.blk = bi ∧ (cs.length == 1) = true) := by
+            intro h; simp at h; exact hw1 h.2
+          have hpre2 : ∀ q ∈ t :: pre', q.blk = bi ∧ q.sel.range = some (q.a, q.hi) ∧ q.hi ≤ cs.length :=
+            fun q hq => ⟨hpre q hq, (hok q (List.mem_append_left _ hq)).1, hwidth q hq⟩
+          by_cases hfull : t.a = 0 ∧ t.hi = cs.length
+          · -- the first target covers the whole block
+            have hpre'nil : pre' = [] := by
+              cases pre' with
+              | nil => rfl
+              | cons p' pre'' =>
+                exfalso
+                rw [List.pairwise_cons] at hspre
+                have h1 := hspre.1 p' List.mem_cons_self
+                have h2 := hwidth p' (List.mem_cons_of_mem _ List.mem_cons_self)
+                have h3 := hpre p' (List.mem_cons_of_mem _ List.mem_cons_self)
+                rcases h1 with h1 | ⟨_, h1⟩
+                · omega
+                · simp only [ATgt.hi] at h1 h2 hfull; omega
+            subst hpre'nil
+            obtain ⟨parts', ps', hw, _, _, _, _, h6, _⟩ := dropWalk_spec dt cs bi (fun c => cov (bi, c)) [] post
+              t.hi [] true (by simp) List.Pairwise.nil (by simp) hthi hposthead
+              (by
+                intro c hc
+                constructor
+                · intro h
+                  obtain ⟨q, hq, hq1, hq2⟩ := (hcovb c).mp h
+                  simp only [List.mem_singleton] at hq; subst hq; omega
+                · rintro ⟨q, hq, _⟩; cases hq)
+            obtain ⟨rfl, rfl⟩ := h6 rfl
+            simp only [List.nil_append, List.append_nil] at hw
+            rw [hfull.2] at hw
+            refine ⟨out', ?_, ?_⟩
+            · simp only [List.cons_append, List.nil_append, List.map_cons, dropBlocksGo, ATgt.pair]
+              rw [if_neg hnarrow, if_neg (by simp [htb])]
+              simp only [dropWalk, ne_eq, htb, not_true_eq_false, if_false, (hpre2 t List.mem_cons_self).2.1,
+                hfull, and_self, if_true]
+              rw [hw]
+              simp only [hfull.2, Nat.lt_irrefl, and_false, if_false, Bool.not_true, Bool.false_eq_true,
+                false_and, List.map_nil, List.nil_append]
+              rw [hout']; rfl
+            · rw [hspec']
+              simp only [Block.width]
+              rw [List.range_eq_range', filter_range'_all_false]
+              · rfl
+              · intro c _ hc
+                have : cov (bi, c) = true := (hcovb c).mpr ⟨t, List.mem_cons_self, by omega, by omega⟩
+                simp [this]
+          · obtain ⟨parts', ps', hw, hps0, hpsl, hhi, hne, hparts⟩ := dropWalk_top dt cs bi
+              (fun c => cov (bi, c)) t pre' post hpre2 hspre hposthead hcovb hfull
+            have hbeyond : ∀ c, ps' ≤ c → cov (bi, c) = false := by
+              intro c hc
+              cases h : cov (bi, c) with
+              | false => rfl
+              | true =>
+                obtain ⟨p, hp, _, hp2⟩ := (hcovb c).mp h
+                have := hhi p hp; omega
+            let parts2 := if 0 < ps' ∧ ps' < cs.length then parts' ++ [Block.d2 dt (subCols cs ps' cs.length)] else parts'
+            have hparts2 : parts2.isEmpty = false := by
+              simp only [parts2]
+              split
+              · simp
+              · rename_i hc
+                cases hp : parts' with
+                | nil => exact absurd ⟨hps0, hne hp⟩ hc
+                | cons x xs => rfl
+            refine ⟨parts2.map (rowDelete rdel) ++ out', ?_, ?_⟩
+            · simp only [List.cons_append, List.map_cons, dropBlocksGo, ATgt.pair]
+              rw [if_neg hnarrow, if_neg (by simp [htb])]
+              simp only [List.cons_append, List.map_cons, ATgt.pair] at hw
+              simp only [hw]
+              show Option.map _ _ = _
+              rw [hout']
+              simp only [Option.map_some, Option.some.injEq]
+              congr 1
+              show (if ¬ false = true ∧ parts2.isEmpty = true then _ else _) = _
+              rw [hparts2]; simp
+              rfl
+            · rw [colsDT_append, hspec', colsDT_map_rowDelete]
+              congr 1
+              simp only [Block.width, Block.dt, Block.colsOf, parts2]
+              have hsplit : List.range cs.length = List.range' 0 ps' ++ List.range' ps' (cs.length - ps') := by
+                rw [List.range_eq_range']
+                have : cs.length = ps' + (cs.length - ps') := by omega
+                conv => lhs; rw [this]
+                rw [← List.range'_append_1]; simp
+              rw [hsplit, List.filter_append, List.map_append]
+              by_cases hlt : ps' < cs.length
+              · rw [if_pos ⟨hps0, hlt⟩, colsDT_append, List.map_append, hparts, List.map_map]
+                congr 1
+                simp only [colsDT_cons, colsDT_nil, List.append_nil,
+                  colsDT_d2_subCols dt cs ps' cs.length (Nat.le_refl _), List.map_map]
+                rw [filter_range'_all_true]
+                · rfl
+                · intro c h1 _; simp [hbeyond c h1]
+              · have : cs.length - ps' = 0 := by omega
+                rw [if_neg (fun h => hlt h.2), hparts, this, List.map_map]
+                simp only [List.range'_zero, List.filter_nil, List.map_nil, List.append_nil]
+                rfl
+
+theorem dropSpec_eq_filter (cov : Nat × Nat → Bool) (del : List α → List α) (bi : Nat) (bs : List (Block α)) :
+    dropSpec cov del bi bs = (((indexFrom bi bs).zip (colsDT bs)).filter (fun x => !cov x.1)).map
+      (fun x => (x.2.1, del x.2.2)) := by
+  induction bs generalizing bi with
+  | nil => rfl
+  | cons b rest ih =>
+    simp only [dropSpec, indexFrom, colsDT_cons]
+    rw [List.zip_append (by simp [Block.colsDT]), List.filter_append, List.map_append, ih]
+    congr 1
+    rw [Block.colsDT_eq_range, List.zip_map', List.filter_map, List.map_map]
+    rfl
+
+
+/-- zipping two lists of equal length = indexing the first by the positions of the second -/
+theorem zip_eq_zipIdx_map {β γ} (I : List β) (X : List γ) (d : β) (h : I.length = X.length) :
+    I.zip X = X.zipIdx.map (fun xj => (I.getD xj.2 d, xj.1)) := by
+  apply List.ext_getElem
+  · simp [h]
+  · intro i h1 h2
+    simp only [List.length_zip, h, Nat.min_self] at h1
+    simp [List.getD_eq_getElem?_getD, List.getElem?_eq_getElem (show i < I.length by omega)]
+
+theorem TB.dropSpec_eq_dropCols (tb : TB α) (cps : List Nat) (del : List α → List α) :
+    dropSpec (tb.covOf cps) del 0 tb.blocks
+      = (((colsDT tb.blocks).zipIdx.filter (fun xj => ¬ cps.contains xj.2)).map (·.1)).map
+          (fun x => (x.1, del x.2)) := by
+  have hlen : (indexFrom 0 tb.blocks).length = (colsDT tb.blocks).length := by
+    rw [indexFrom_length, colsDT_length]
+  rw [dropSpec_eq_filter, zip_eq_zipIdx_map _ _ (0, 0) hlen, List.filter_map, List.map_map, List.map_map]
+  congr 1
+  apply List.filter_congr
+  intro xj hxj
+  obtain ⟨x, j⟩ := xj
+  obtain ⟨_, hj, _⟩ := List.mem_zipIdx hxj
+  have hj' : j < tb.index.length := by show j < (indexFrom 0 tb.blocks).length; omega
+  have hcov := tb.covOf_index cps j _ (List.getElem?_eq_getElem hj')
+  simp only [Function.comp_def, List.getD_eq_getElem?_getD]
+  show (!tb.covOf cps (tb.index[j]?.getD (0, 0))) = _
+  rw [List.getElem?_eq_getElem hj', Option.getD_some]
+  by_cases hc : j ∈ cps
+  · rw [hcov.mpr hc]; simp [hc]
+  · have : tb.covOf cps tb.index[j] = false := by
+      cases h : tb.covOf cps tb.index[j] with
+      | false => rfl
+      | true => exact absurd (hcov.mp h) hc
+    rw [this]; simp [hc]
+
+theorem dropSpec_mem (cov : Nat × Nat → Bool) (del : List α → List α) (bi : Nat) (bs : List (Block α))
+    (x : DT × List α) (h : x ∈ dropSpec cov del bi bs) : ∃ c ∈ bs.flatMap Block.colsOf, x.2 = del c := by
+  induction bs generalizing bi with
+  | nil => simp [dropSpec] at h
+  | cons b rest ih =>
+    simp only [dropSpec, List.mem_append, List.mem_map, List.mem_filter, List.mem_range] at h
+    rcases h with ⟨c, ⟨hc, _⟩, rfl⟩ | h
+    · refine ⟨b.colsOf.getD c [], ?_, rfl⟩
+      rw [List.flatMap_cons, List.mem_append]
+      left
+      rw [List.getD_eq_getElem?_getD, List.getElem?_eq_getElem (by simpa using hc)]
+      simp
+    · obtain ⟨c, hc, hx⟩ := ih _ h
+      exact ⟨c, by rw [List.flatMap_cons, List.mem_append]; exact Or.inr hc, hx⟩
 
 end SF
